@@ -16,597 +16,696 @@ Definition terms (ts : list tok) (t : pt) : string :=
   digest (show_toks (Some ts)) ++ " " ++ digest (show_pt (Some t)) ++ " " ++ digest (show_pt (parse ts)).
 Definition terms_full (ts : list tok) (t : pt) : string :=
   show_toks (Some ts) ++ nl ++ show_pt (Some t) ++ nl ++ show_pt (parse ts).
-Eval vm_compute in ("<<<M4>>>" ++ check (runes_of_ascii "root packet pack  { match Pad as// a // b
-f32a
-    {	[
-/// triple
-//	t
-"""" ]: leftPad
-, [""" ++ [233]%N ++ runes_of_ascii "t" ++ [233]%N ++ runes_of_ascii """,007 ] : //	t
-f32a //x
-, 65535 :  body
-    ,
-    // @lengthOf(
-    10:u128,42	: // trailing space 
-pack, } ,}options{// " ++ [27880; 37322]%N ++ runes_of_ascii "
-o=
-    // c
-    f64 ; x_y_z //
-= /// triple
-u32 len =
-    42;
-falsey
-    = true	;}")).
-Eval vm_compute in ("<<<M14>>>" ++ check (runes_of_ascii "
-")).
-Eval vm_compute in ("<<<M24>>>" ++ check (runes_of_ascii "root // c
-packet msg_type	{ repeat// packet A { u8 x, }
-A { repeat a1
-    { repeat  len// trailing space 
-, }
-    ,pack string_,	zchar[ 7 ] msg_type  @lengthOf(u
-) , } ,
-    repeat
-zchar[ // `tick` ""quote"" 'q'
-00] tag, u64 o@calculatedFrom(""a\\""
-    // trailing space 
-    ) ,  }
-    packet charz {@tag( 0
-) // c
-repeat
+Eval vm_compute in ("<<<M4>>>" ++ check (runes_of_ascii "packet //x
+body {
+    @tag(  007 ) repeat T asx `two words`
+, @calculatedFrom( """ ++ [128512]%N ++ runes_of_ascii """ )// c
+zchar[ 65535]  charz @lengthOf( trueish
+)	,
     // a // b
-    u {
-char[007 ] T,}, repeatCount @calculatedFrom( ""\n""
-)
-,
-}packet
-trueish {
-@calculatedFrom( ""a\\"") @rightPad
-    ('0' ) // `tick` ""quote"" 'q'
-@lengthOf( BodyLength
-) string asx @lengthOf( A	),
-//x
-/// triple
-@rightPad (
-' '
-) match pack
-    // @lengthOf(
-    as leftPad
-{  [
-1 ]// a // b
-:
-body , [ ""a	b""]
-:msg_type , // `tick` ""quote"" 'q'
-10 :calculatedFrom ,7 : packetx,
-""" ++ [233]%N ++ runes_of_ascii "t" ++ [233]%N ++ runes_of_ascii """
-: roots ,	}
-    ,@calculatedFrom(""1""
-    )  repeat roots
-    // c
-    u8x
-    ,}
-")).
-Eval vm_compute in ("<<<M34>>>" ++ check (runes_of_ascii "root/// triple
-packet int{
-f32 i8i8 , uint8x /// triple
-zchar
-    `// not a comment`// a // b
-,
-    u64 u8x @lengthOf( u ) ,char[] i64_@lengthOf( crc
-    ), @lengthOf( packetx
-    )metadata i64_
-, } packet a1	{ zchar[ 65535
-] float, zchar[ 00
-    //	t
-    ]
-    matchKey
-,
-} options { crc =u64 } MetaData leftPad { trueish string_ ,  uint64 Header
-`" ++ [28040; 24687; 31867; 22411]%N ++ runes_of_ascii "` , }
-    // " ++ [128512]%N ++ runes_of_ascii " emoji
-    MetaData//x
-tag { zchar
-chars
-// " ++ [27880; 37322]%N ++ runes_of_ascii "
-//x
-,  repeatCount  lengthOf`
-` , i16
-u /// triple
-`tab	here` , lengthOf
-a1 ,u16 o
-    , char
-i64_  `two words` , }
-//x
-")).
-Eval vm_compute in ("<<<T34>>>" ++ terms [mkTok 34 "root" 1 0 false; mkTok 44 "/// triple" 1 4 true; mkTok 35 "packet" 2 0 false; mkTok 42 "int" 2 7 false; mkTok 2 "{" 2 10 false; mkTok 28 "f32" 3 0 false; mkTok 42 "i8i8" 3 4 false; mkTok 40 "," 3 9 false; mkTok 42 "uint8x" 3 11 false; mkTok 44 "/// triple" 3 18 true; mkTok 42 "zchar" 4 0 false; mkTok 43 "`// not a comment`" 5 4 false; mkTok 44 "// a // b" 5 22 true; mkTok 40 "," 6 0 false; mkTok 23 "u64" 7 4 false; mkTok 42 "u8x" 7 8 false; mkTok 7 "@lengthOf(" 7 12 false; mkTok 42 "u" 7 23 false; mkTok 6 ")" 7 25 false; mkTok 40 "," 7 27 false; mkTok 16 "char[]" 7 28 false; mkTok 42 "i64_" 7 35 false; mkTok 7 "@lengthOf(" 7 39 false; mkTok 42 "crc" 7 50 false; mkTok 6 ")" 8 4 false; mkTok 40 "," 8 5 false; mkTok 7 "@lengthOf(" 8 7 false; mkTok 42 "packetx" 8 18 false; mkTok 6 ")" 9 4 false; mkTok 42 "metadata" 9 5 false; mkTok 42 "i64_" 9 14 false; mkTok 40 "," 10 0 false; mkTok 3 "}" 10 2 false; mkTok 35 "packet" 10 4 false; mkTok 42 "a1" 10 11 false; mkTok 2 "{" 10 14 false; mkTok 14 "zchar[" 10 16 false; mkTok 30 "65535" 10 23 false; mkTok 13 "]" 11 0 false; mkTok 42 "float" 11 2 false; mkTok 40 "," 11 7 false; mkTok 14 "zchar[" 11 9 false; mkTok 30 "00" 11 16 false; mkTok 44 (string_of_bytes [47; 47; 9; 116]%N) 12 4 true; mkTok 13 "]" 13 4 false; mkTok 42 "matchKey" 14 4 false; mkTok 40 "," 15 0 false; mkTok 3 "}" 16 0 false; mkTok 1 "options" 16 2 false; mkTok 2 "{" 16 10 false; mkTok 42 "crc" 16 12 false; mkTok 4 "=" 16 16 false; mkTok 23 "u64" 16 17 false; mkTok 3 "}" 16 21 false; mkTok 37 "MetaData" 16 23 false; mkTok 42 "leftPad" 16 32 false; mkTok 2 "{" 16 40 false; mkTok 42 "trueish" 16 42 false; mkTok 42 "string_" 16 50 false; mkTok 40 "," 16 58 false; mkTok 23 "uint64" 16 61 false; mkTok 42 "Header" 16 68 false; mkTok 43 (string_of_bytes [96; 230; 182; 136; 230; 129; 175; 231; 177; 187; 229; 158; 139; 96]%N) 17 0 false; mkTok 40 "," 17 7 false; mkTok 3 "}" 17 9 false; mkTok 44 (string_of_bytes [47; 47; 32; 240; 159; 152; 128; 32; 101; 109; 111; 106; 105]%N) 18 4 true; mkTok 37 "MetaData" 19 4 false; mkTok 44 "//x" 19 12 true; mkTok 42 "tag" 20 0 false; mkTok 2 "{" 20 4 false; mkTok 42 "zchar" 20 6 false; mkTok 42 "chars" 21 0 false; mkTok 44 (string_of_bytes [47; 47; 32; 230; 179; 168; 233; 135; 138]%N) 22 0 true; mkTok 44 "//x" 23 0 true; mkTok 40 "," 24 0 false; mkTok 42 "repeatCount" 24 3 false; mkTok 42 "lengthOf" 24 16 false; mkTok 43 (string_of_bytes [96; 10; 96]%N) 24 24 false; mkTok 40 "," 25 2 false; mkTok 25 "i16" 25 4 false; mkTok 42 "u" 26 0 false; mkTok 44 "/// triple" 26 2 true; mkTok 43 (string_of_bytes [96; 116; 97; 98; 9; 104; 101; 114; 101; 96]%N) 27 0 false; mkTok 40 "," 27 11 false; mkTok 42 "lengthOf" 27 13 false; mkTok 42 "a1" 28 0 false; mkTok 40 "," 28 3 false; mkTok 21 "u16" 28 4 false; mkTok 42 "o" 28 8 false; mkTok 40 "," 29 4 false; mkTok 19 "char" 29 6 false; mkTok 42 "i64_" 30 0 false; mkTok 43 "`two words`" 30 6 false; mkTok 40 "," 30 18 false; mkTok 3 "}" 30 20 false; mkTok 44 "//x" 31 0 true; mkTok 0 "<EOF>" 32 0 false] (mkPacket (mkPtok 34 "root" 1 0 0) (Some (mkPtok 3 "}" 30 20 94)) [(DPacket (mkPacketDef (mkSpan (mkPtok 34 "root" 1 0 0) (mkPtok 3 "}" 10 2 32)) (Some (mkPtok 34 "root" 1 0 0)) (mkPtok 35 "packet" 2 0 2) (mkPtok 42 "int" 2 7 3) (mkPtok 2 "{" 2 10 4) [(mkFieldWithAttr (mkSpan (mkPtok 28 "f32" 3 0 5) (mkPtok 40 "," 3 9 7)) [] (MetaField (mkSpan (mkPtok 28 "f32" 3 0 5) (mkPtok 40 "," 3 9 7)) None (mkMetaDecl (mkSpan (mkPtok 28 "f32" 3 0 5) (mkPtok 40 "," 3 9 7)) (TyBasic (mkSpan (mkPtok 28 "f32" 3 0 5) (mkPtok 28 "f32" 3 0 5)) (mkBasicType (mkSpan (mkPtok 28 "f32" 3 0 5) (mkPtok 28 "f32" 3 0 5)) (mkPtok 28 "f32" 3 0 5))) (mkPtok 42 "i8i8" 3 4 6) None (mkPtok 40 "," 3 9 7)))); (mkFieldWithAttr (mkSpan (mkPtok 42 "uint8x" 3 11 8) (mkPtok 40 "," 6 0 13)) [] (ObjectField (mkSpan (mkPtok 42 "uint8x" 3 11 8) (mkPtok 40 "," 6 0 13)) None (mkPtok 42 "uint8x" 3 11 8) (Some (mkPtok 42 "zchar" 4 0 10)) (Some (mkPtok 43 "`// not a comment`" 5 4 11)) (mkPtok 40 "," 6 0 13))); (mkFieldWithAttr (mkSpan (mkPtok 23 "u64" 7 4 14) (mkPtok 40 "," 7 27 19)) [] (LengthField (mkSpan (mkPtok 23 "u64" 7 4 14) (mkPtok 40 "," 7 27 19)) (mkLengthFieldDecl (mkSpan (mkPtok 23 "u64" 7 4 14) (mkPtok 40 "," 7 27 19)) (Some (TyBasic (mkSpan (mkPtok 23 "u64" 7 4 14) (mkPtok 23 "u64" 7 4 14)) (mkBasicType (mkSpan (mkPtok 23 "u64" 7 4 14) (mkPtok 23 "u64" 7 4 14)) (mkPtok 23 "u64" 7 4 14)))) (mkPtok 42 "u8x" 7 8 15) (mkLengthOf (mkSpan (mkPtok 7 "@lengthOf(" 7 12 16) (mkPtok 6 ")" 7 25 18)) (mkPtok 7 "@lengthOf(" 7 12 16) (mkPtok 42 "u" 7 23 17) (mkPtok 6 ")" 7 25 18)) None (mkPtok 40 "," 7 27 19)))); (mkFieldWithAttr (mkSpan (mkPtok 16 "char[]" 7 28 20) (mkPtok 40 "," 8 5 25)) [] (LengthField (mkSpan (mkPtok 16 "char[]" 7 28 20) (mkPtok 40 "," 8 5 25)) (mkLengthFieldDecl (mkSpan (mkPtok 16 "char[]" 7 28 20) (mkPtok 40 "," 8 5 25)) (Some (TyDynamic (mkSpan (mkPtok 16 "char[]" 7 28 20) (mkPtok 16 "char[]" 7 28 20)) (mkDynamicString (mkSpan (mkPtok 16 "char[]" 7 28 20) (mkPtok 16 "char[]" 7 28 20)) (mkPtok 16 "char[]" 7 28 20)))) (mkPtok 42 "i64_" 7 35 21) (mkLengthOf (mkSpan (mkPtok 7 "@lengthOf(" 7 39 22) (mkPtok 6 ")" 8 4 24)) (mkPtok 7 "@lengthOf(" 7 39 22) (mkPtok 42 "crc" 7 50 23) (mkPtok 6 ")" 8 4 24)) None (mkPtok 40 "," 8 5 25)))); (mkFieldWithAttr (mkSpan (mkPtok 7 "@lengthOf(" 8 7 26) (mkPtok 40 "," 10 0 31)) [(FALengthOf (mkSpan (mkPtok 7 "@lengthOf(" 8 7 26) (mkPtok 6 ")" 9 4 28)) (mkLengthOf (mkSpan (mkPtok 7 "@lengthOf(" 8 7 26) (mkPtok 6 ")" 9 4 28)) (mkPtok 7 "@lengthOf(" 8 7 26) (mkPtok 42 "packetx" 8 18 27) (mkPtok 6 ")" 9 4 28)))] (ObjectField (mkSpan (mkPtok 42 "metadata" 9 5 29) (mkPtok 40 "," 10 0 31)) None (mkPtok 42 "metadata" 9 5 29) (Some (mkPtok 42 "i64_" 9 14 30)) None (mkPtok 40 "," 10 0 31)))] (mkPtok 3 "}" 10 2 32))); (DPacket (mkPacketDef (mkSpan (mkPtok 35 "packet" 10 4 33) (mkPtok 3 "}" 16 0 47)) None (mkPtok 35 "packet" 10 4 33) (mkPtok 42 "a1" 10 11 34) (mkPtok 2 "{" 10 14 35) [(mkFieldWithAttr (mkSpan (mkPtok 14 "zchar[" 10 16 36) (mkPtok 40 "," 11 7 40)) [] (MetaField (mkSpan (mkPtok 14 "zchar[" 10 16 36) (mkPtok 40 "," 11 7 40)) None (mkMetaDecl (mkSpan (mkPtok 14 "zchar[" 10 16 36) (mkPtok 40 "," 11 7 40)) (TyFixed (mkSpan (mkPtok 14 "zchar[" 10 16 36) (mkPtok 13 "]" 11 0 38)) (mkFixedString (mkSpan (mkPtok 14 "zchar[" 10 16 36) (mkPtok 13 "]" 11 0 38)) (mkPtok 14 "zchar[" 10 16 36) (mkPtok 30 "65535" 10 23 37) (mkPtok 13 "]" 11 0 38))) (mkPtok 42 "float" 11 2 39) None (mkPtok 40 "," 11 7 40)))); (mkFieldWithAttr (mkSpan (mkPtok 14 "zchar[" 11 9 41) (mkPtok 40 "," 15 0 46)) [] (MetaField (mkSpan (mkPtok 14 "zchar[" 11 9 41) (mkPtok 40 "," 15 0 46)) None (mkMetaDecl (mkSpan (mkPtok 14 "zchar[" 11 9 41) (mkPtok 40 "," 15 0 46)) (TyFixed (mkSpan (mkPtok 14 "zchar[" 11 9 41) (mkPtok 13 "]" 13 4 44)) (mkFixedString (mkSpan (mkPtok 14 "zchar[" 11 9 41) (mkPtok 13 "]" 13 4 44)) (mkPtok 14 "zchar[" 11 9 41) (mkPtok 30 "00" 11 16 42) (mkPtok 13 "]" 13 4 44))) (mkPtok 42 "matchKey" 14 4 45) None (mkPtok 40 "," 15 0 46))))] (mkPtok 3 "}" 16 0 47))); (DOption (mkOptionDef (mkSpan (mkPtok 1 "options" 16 2 48) (mkPtok 3 "}" 16 21 53)) (mkPtok 1 "options" 16 2 48) (mkPtok 2 "{" 16 10 49) [(mkOptionDecl (mkSpan (mkPtok 42 "crc" 16 12 50) (mkPtok 23 "u64" 16 17 52)) (mkPtok 42 "crc" 16 12 50) (mkPtok 4 "=" 16 16 51) (VType (mkSpan (mkPtok 23 "u64" 16 17 52) (mkPtok 23 "u64" 16 17 52)) (TyBasic (mkSpan (mkPtok 23 "u64" 16 17 52) (mkPtok 23 "u64" 16 17 52)) (mkBasicType (mkSpan (mkPtok 23 "u64" 16 17 52) (mkPtok 23 "u64" 16 17 52)) (mkPtok 23 "u64" 16 17 52)))) None)] (mkPtok 3 "}" 16 21 53))); (DMeta (mkMetaDef (mkSpan (mkPtok 37 "MetaData" 16 23 54) (mkPtok 3 "}" 17 9 64)) (mkPtok 37 "MetaData" 16 23 54) (mkPtok 42 "leftPad" 16 32 55) (mkPtok 2 "{" 16 40 56) [(MIRef (mkRefMetaDecl (mkSpan (mkPtok 42 "trueish" 16 42 57) (mkPtok 40 "," 16 58 59)) (mkPtok 42 "trueish" 16 42 57) (mkPtok 42 "string_" 16 50 58) None (mkPtok 40 "," 16 58 59))); (MIDecl (mkMetaDecl (mkSpan (mkPtok 23 "uint64" 16 61 60) (mkPtok 40 "," 17 7 63)) (TyBasic (mkSpan (mkPtok 23 "uint64" 16 61 60) (mkPtok 23 "uint64" 16 61 60)) (mkBasicType (mkSpan (mkPtok 23 "uint64" 16 61 60) (mkPtok 23 "uint64" 16 61 60)) (mkPtok 23 "uint64" 16 61 60))) (mkPtok 42 "Header" 16 68 61) (Some (mkPtok 43 (string_of_bytes [96; 230; 182; 136; 230; 129; 175; 231; 177; 187; 229; 158; 139; 96]%N) 17 0 62)) (mkPtok 40 "," 17 7 63)))] (mkPtok 3 "}" 17 9 64))); (DMeta (mkMetaDef (mkSpan (mkPtok 37 "MetaData" 19 4 66) (mkPtok 3 "}" 30 20 94)) (mkPtok 37 "MetaData" 19 4 66) (mkPtok 42 "tag" 20 0 68) (mkPtok 2 "{" 20 4 69) [(MIRef (mkRefMetaDecl (mkSpan (mkPtok 42 "zchar" 20 6 70) (mkPtok 40 "," 24 0 74)) (mkPtok 42 "zchar" 20 6 70) (mkPtok 42 "chars" 21 0 71) None (mkPtok 40 "," 24 0 74))); (MIRef (mkRefMetaDecl (mkSpan (mkPtok 42 "repeatCount" 24 3 75) (mkPtok 40 "," 25 2 78)) (mkPtok 42 "repeatCount" 24 3 75) (mkPtok 42 "lengthOf" 24 16 76) (Some (mkPtok 43 (string_of_bytes [96; 10; 96]%N) 24 24 77)) (mkPtok 40 "," 25 2 78))); (MIDecl (mkMetaDecl (mkSpan (mkPtok 25 "i16" 25 4 79) (mkPtok 40 "," 27 11 83)) (TyBasic (mkSpan (mkPtok 25 "i16" 25 4 79) (mkPtok 25 "i16" 25 4 79)) (mkBasicType (mkSpan (mkPtok 25 "i16" 25 4 79) (mkPtok 25 "i16" 25 4 79)) (mkPtok 25 "i16" 25 4 79))) (mkPtok 42 "u" 26 0 80) (Some (mkPtok 43 (string_of_bytes [96; 116; 97; 98; 9; 104; 101; 114; 101; 96]%N) 27 0 82)) (mkPtok 40 "," 27 11 83))); (MIRef (mkRefMetaDecl (mkSpan (mkPtok 42 "lengthOf" 27 13 84) (mkPtok 40 "," 28 3 86)) (mkPtok 42 "lengthOf" 27 13 84) (mkPtok 42 "a1" 28 0 85) None (mkPtok 40 "," 28 3 86))); (MIDecl (mkMetaDecl (mkSpan (mkPtok 21 "u16" 28 4 87) (mkPtok 40 "," 29 4 89)) (TyBasic (mkSpan (mkPtok 21 "u16" 28 4 87) (mkPtok 21 "u16" 28 4 87)) (mkBasicType (mkSpan (mkPtok 21 "u16" 28 4 87) (mkPtok 21 "u16" 28 4 87)) (mkPtok 21 "u16" 28 4 87))) (mkPtok 42 "o" 28 8 88) None (mkPtok 40 "," 29 4 89))); (MIDecl (mkMetaDecl (mkSpan (mkPtok 19 "char" 29 6 90) (mkPtok 40 "," 30 18 93)) (TyBasic (mkSpan (mkPtok 19 "char" 29 6 90) (mkPtok 19 "char" 29 6 90)) (mkBasicType (mkSpan (mkPtok 19 "char" 29 6 90) (mkPtok 19 "char" 29 6 90)) (mkPtok 19 "char" 29 6 90))) (mkPtok 42 "i64_" 30 0 91) (Some (mkPtok 43 "`two words`" 30 6 92)) (mkPtok 40 "," 30 18 93)))] (mkPtok 3 "}" 30 20 94)))])).
-Eval vm_compute in ("<<<M44>>>" ++ check (runes_of_ascii "
-packet A
-{ repeat lengthOf {
-len ,
-    } , @tag(// trailing space 
-42	) match Header
-    as falsey
-{ [
-""" ++ [128512]%N ++ runes_of_ascii """//
-, ""\n"", 4294967296 ]
-    : Packet
-1 :	falsey,
-""\" ++ [233]%N ++ runes_of_ascii """ // " ++ [128512]%N ++ runes_of_ascii " emoji
-:
-    charz } , zchar[255
-]
-// packet A { u8 x, }
-// trailing space 
-rootA , repeat  char[ 10 ]// `tick` ""quote"" 'q'
-f32a
-// trailing space 
-//x
-,@calculatedFrom(  ""// no comment"") char[ 00 ]trueish@calculatedFrom(
-    // " ++ [27880; 37322]%N ++ runes_of_ascii "
-    ""a\""b"" )`line1
-line2` ,}")).
-Eval vm_compute in ("<<<M54>>>" ++ check (runes_of_ascii "  root packet _x// " ++ [128512]%N ++ runes_of_ascii " emoji
-{@lengthOf(// c
-Packet ) float32 stringy  @calculatedFrom(
-""x y"" ) `say ""hi""`, match Pad as
-x_y_z{ ""a\\"" : float , 65535 : stringy 007: /// triple
-uint8x ,
-    } , }
-")).
-Eval vm_compute in ("<<<M64>>>" ++ check (runes_of_ascii "MetaData Packet { // `tick` ""quote"" 'q'
-Header
-// " ++ [27880; 37322]%N ++ runes_of_ascii "
-// c
-uint8x
-`{ , }`, x_y_z u8x `it's`
-// packet A { u8 x, }
-// packet A { u8 x, }
-,
-} // trailing space 
-root packet packetx { repeat char[]  packetx , string zchar@lengthOf( a1
-)	`tab	here`
-    // @lengthOf(
-    ,
-match
-    string_ as float { ""a\""b""  : Logon , 00
-    :
-    Foo 42 : stringy	[ 255
-    , 0, ""a\\""] :f32a // @lengthOf(
-[7 ,	""`tick`""
-] : float , 0 : // c
-len //	t
-,} , @lengthOf( Header	)
-    //
-    len`doc`
-, repeat
-Pad { // " ++ [27880; 37322]%N ++ runes_of_ascii "
-repeat	Pad `it's`,// @lengthOf(
-char[ 65535
-    ]i64_
-    @calculatedFrom( //
-""1"" )
-    `a\` , crc
-    // `tick` ""quote"" 'q'
-    `two words` , match len
-// a // b
-/// triple
-as
-BodyLength { ""abc""
-    // " ++ [27880; 37322]%N ++ runes_of_ascii "
-    :a1, [ ""packet""
-    /// triple
-    ,
-    7
-    ]
-    : crc
-,
-    // c
-    3 :
-    asx , }	,	} ,
-int8 rootA @lengthOf(crc ),@lengthOf( chars)
-    // trailing space 
-    @tag( 7 ) @tag(7 ) repeat char[ 10 ] packetx	, }
+    string packetx	`// not a comment` ,
+@rightPad ( ' ') match u8x as	charz {""x y"" :
+int ,}  , // c
+}
 
 ")).
-Eval vm_compute in ("<<<M74>>>" ++ check (runes_of_ascii "MetaData len //	t
-{ f64 calculatedFrom , x_y_z	x
-,} packet repeatCount { @lengthOf(pack ) match
-x_y_z as o // " ++ [27880; 37322]%N ++ runes_of_ascii "
-{ 7:
-Header
-// `tick` ""quote"" 'q'
-// a // b
-} , } options { lengthOf  = true; }
-packet  leftPad
-    {
-    MetaDataX @lengthOf( T ) `two words` ,
-    }")).
-Eval vm_compute in ("<<<M84>>>" ++ check (runes_of_ascii "packet
-zchar {@rightPad (// a // b
-) uint8 a1 `line1
-line2` , @calculatedFrom( ""x y"" ) match pack as	matchKey
-{
-    /// triple
-    """ ++ [28040; 24687]%N ++ runes_of_ascii """  : //x
-u128 ,
-    3 : i64_
-    ""a\""b""
-    : As , } ,
-// " ++ [27880; 37322]%N ++ runes_of_ascii "
-// @lengthOf(
-u8 Packet	@calculatedFrom( ""// no comment"" ) //x
-,
-    }
-//
-")).
-Eval vm_compute in ("<<<M94>>>" ++ check (runes_of_ascii "packet charz {repeat char[ 3 ]
-BodyLength,As stringy, match
-    tag as uint8x { //
-[ ""it's"" , 007
-    , 4294967296
-    // c
-    ] : uint8x ,
-}, // a // b
-@tag( 0
-)/// triple
-repeat char[	7	] u	,}
-    // packet A { u8 x, }
-    MetaData options1
-    { Z9_  _x ,	} packet BodyLength
-{} MetaData chars { float Foo,
-}")).
-Eval vm_compute in ("<<<M104>>>" ++ check (runes_of_ascii "
-options{ calculatedFrom = false ; } packet i64_
-{
-    body,
-//	t
-//x
-}/// triple
-options { float
-=	true ;// @lengthOf(
-charz =// a // b
-char[65535 ]; u=/// triple
-true ;metadata = ""\" ++ [233]%N ++ runes_of_ascii """  matchKey = '\x00'
-    } // " ++ [27880; 37322]%N)).
-Eval vm_compute in ("<<<T104>>>" ++ terms [mkTok 1 "options" 2 0 false; mkTok 2 "{" 2 7 false; mkTok 42 "calculatedFrom" 2 9 false; mkTok 4 "=" 2 24 false; mkTok 11 "false" 2 26 false; mkTok 41 ";" 2 32 false; mkTok 3 "}" 2 34 false; mkTok 35 "packet" 2 36 false; mkTok 42 "i64_" 2 43 false; mkTok 2 "{" 3 0 false; mkTok 42 "body" 4 4 false; mkTok 40 "," 4 8 false; mkTok 44 (string_of_bytes [47; 47; 9; 116]%N) 5 0 true; mkTok 44 "//x" 6 0 true; mkTok 3 "}" 7 0 false; mkTok 44 "/// triple" 7 1 true; mkTok 1 "options" 8 0 false; mkTok 2 "{" 8 8 false; mkTok 42 "float" 8 10 false; mkTok 4 "=" 9 0 false; mkTok 10 "true" 9 2 false; mkTok 41 ";" 9 7 false; mkTok 44 "// @lengthOf(" 9 8 true; mkTok 42 "charz" 10 0 false; mkTok 4 "=" 10 6 false; mkTok 44 "// a // b" 10 7 true; mkTok 12 "char[" 11 0 false; mkTok 30 "65535" 11 5 false; mkTok 13 "]" 11 11 false; mkTok 41 ";" 11 12 false; mkTok 42 "u" 11 14 false; mkTok 4 "=" 11 15 false; mkTok 44 "/// triple" 11 16 true; mkTok 10 "true" 12 0 false; mkTok 41 ";" 12 5 false; mkTok 42 "metadata" 12 6 false; mkTok 4 "=" 12 15 false; mkTok 31 (string_of_bytes [34; 92; 195; 169; 34]%N) 12 17 false; mkTok 42 "matchKey" 12 23 false; mkTok 4 "=" 12 32 false; mkTok 33 "'\x00'" 12 34 false; mkTok 3 "}" 13 4 false; mkTok 44 (string_of_bytes [47; 47; 32; 230; 179; 168; 233; 135; 138]%N) 13 6 true; mkTok 0 "<EOF>" 13 11 false] (mkPacket (mkPtok 1 "options" 2 0 0) (Some (mkPtok 3 "}" 13 4 41)) [(DOption (mkOptionDef (mkSpan (mkPtok 1 "options" 2 0 0) (mkPtok 3 "}" 2 34 6)) (mkPtok 1 "options" 2 0 0) (mkPtok 2 "{" 2 7 1) [(mkOptionDecl (mkSpan (mkPtok 42 "calculatedFrom" 2 9 2) (mkPtok 41 ";" 2 32 5)) (mkPtok 42 "calculatedFrom" 2 9 2) (mkPtok 4 "=" 2 24 3) (VFalse (mkSpan (mkPtok 11 "false" 2 26 4) (mkPtok 11 "false" 2 26 4)) (mkPtok 11 "false" 2 26 4)) (Some (mkPtok 41 ";" 2 32 5)))] (mkPtok 3 "}" 2 34 6))); (DPacket (mkPacketDef (mkSpan (mkPtok 35 "packet" 2 36 7) (mkPtok 3 "}" 7 0 14)) None (mkPtok 35 "packet" 2 36 7) (mkPtok 42 "i64_" 2 43 8) (mkPtok 2 "{" 3 0 9) [(mkFieldWithAttr (mkSpan (mkPtok 42 "body" 4 4 10) (mkPtok 40 "," 4 8 11)) [] (ObjectField (mkSpan (mkPtok 42 "body" 4 4 10) (mkPtok 40 "," 4 8 11)) None (mkPtok 42 "body" 4 4 10) None None (mkPtok 40 "," 4 8 11)))] (mkPtok 3 "}" 7 0 14))); (DOption (mkOptionDef (mkSpan (mkPtok 1 "options" 8 0 16) (mkPtok 3 "}" 13 4 41)) (mkPtok 1 "options" 8 0 16) (mkPtok 2 "{" 8 8 17) [(mkOptionDecl (mkSpan (mkPtok 42 "float" 8 10 18) (mkPtok 41 ";" 9 7 21)) (mkPtok 42 "float" 8 10 18) (mkPtok 4 "=" 9 0 19) (VTrue (mkSpan (mkPtok 10 "true" 9 2 20) (mkPtok 10 "true" 9 2 20)) (mkPtok 10 "true" 9 2 20)) (Some (mkPtok 41 ";" 9 7 21))); (mkOptionDecl (mkSpan (mkPtok 42 "charz" 10 0 23) (mkPtok 41 ";" 11 12 29)) (mkPtok 42 "charz" 10 0 23) (mkPtok 4 "=" 10 6 24) (VType (mkSpan (mkPtok 12 "char[" 11 0 26) (mkPtok 13 "]" 11 11 28)) (TyFixed (mkSpan (mkPtok 12 "char[" 11 0 26) (mkPtok 13 "]" 11 11 28)) (mkFixedString (mkSpan (mkPtok 12 "char[" 11 0 26) (mkPtok 13 "]" 11 11 28)) (mkPtok 12 "char[" 11 0 26) (mkPtok 30 "65535" 11 5 27) (mkPtok 13 "]" 11 11 28)))) (Some (mkPtok 41 ";" 11 12 29))); (mkOptionDecl (mkSpan (mkPtok 42 "u" 11 14 30) (mkPtok 41 ";" 12 5 34)) (mkPtok 42 "u" 11 14 30) (mkPtok 4 "=" 11 15 31) (VTrue (mkSpan (mkPtok 10 "true" 12 0 33) (mkPtok 10 "true" 12 0 33)) (mkPtok 10 "true" 12 0 33)) (Some (mkPtok 41 ";" 12 5 34))); (mkOptionDecl (mkSpan (mkPtok 42 "metadata" 12 6 35) (mkPtok 31 (string_of_bytes [34; 92; 195; 169; 34]%N) 12 17 37)) (mkPtok 42 "metadata" 12 6 35) (mkPtok 4 "=" 12 15 36) (VString (mkSpan (mkPtok 31 (string_of_bytes [34; 92; 195; 169; 34]%N) 12 17 37) (mkPtok 31 (string_of_bytes [34; 92; 195; 169; 34]%N) 12 17 37)) (mkPtok 31 (string_of_bytes [34; 92; 195; 169; 34]%N) 12 17 37)) None); (mkOptionDecl (mkSpan (mkPtok 42 "matchKey" 12 23 38) (mkPtok 33 "'\x00'" 12 34 40)) (mkPtok 42 "matchKey" 12 23 38) (mkPtok 4 "=" 12 32 39) (VPaddingChar (mkSpan (mkPtok 33 "'\x00'" 12 34 40) (mkPtok 33 "'\x00'" 12 34 40)) (mkPtok 33 "'\x00'" 12 34 40)) None)] (mkPtok 3 "}" 13 4 41)))])).
-Eval vm_compute in ("<<<M114>>>" ++ check (runes_of_ascii "packet i64_
-{	@tag( // a // b
-0123456789) x_y_z@calculatedFrom( ""it's"" ) , @rightPad ( ' ' ) @tag( 007
-    ) leftPad {
-    zchar[00 ]Pad , }
-,int32 _x@lengthOf( BodyLength
-/// triple
-//
-) ,
-}
-")).
-Eval vm_compute in ("<<<M124>>>" ++ check (runes_of_ascii "packet
-Pad {
-@lengthOf(stringy)MetaDataX  @calculatedFrom(""" ++ [28040; 24687]%N ++ runes_of_ascii """ ) `{ , }` ,
-//x
-/// triple
-char[ 0123456789 ]leftPad @lengthOf( float
-), asx leftPad `u8 x,` ,
-    @calculatedFrom(""\" ++ [233]%N ++ runes_of_ascii """ )
-    repeat  rootA
-    matchKey `" ++ [28040; 24687; 31867; 22411]%N ++ runes_of_ascii "`, @lengthOf( stringy
-    ) /// triple
-uint8x msg_type `u8 x,`, // c
-char[ 3
-]
-stringy `tab	here`  ,
-}
-MetaData metadata{ string_ zchar , float32 u128	,
-char[]
+Eval vm_compute in ("<<<M14>>>" ++ check (runes_of_ascii "packet
+x_y_z{ @calculatedFrom( // `tick` ""quote"" 'q'
+""" ++ [128512]%N ++ runes_of_ascii """ ) uint16 a1 , string
+    crc //
+, char[0123456789 ]charz
+`doc`
+    //x
+    ,//x
+match As	as packetx { ""a\""b"":
+MetaDataX , ""{,}""  : f32a
+,42 : metadata // " ++ [27880; 37322]%N ++ runes_of_ascii "
+[""1"" , 7 ]:
+chars ,  } , }  MetaData
+T
+    { //x
+uint8 f32a`
+`
+    , string MetaDataX, char[ // 50% %s
+0123456789 // @lengthOf(
+]MetaDataX `tab	here`
+    , } packet //
+uint8x	{ }	packet
+    matchKey{ @tag( 00 // c
+) @tag(
+    255
+    // `tick` ""quote"" 'q'
+    ) @calculatedFrom(
     //	t
-    u128//x
-,} options
-    // trailing space 
-    { zchar =""" ++ [28040; 24687]%N ++ runes_of_ascii """ ;
-msg_type = 007 ;	repeatCount = '\x00' ;	} packet
-_x { }  options
-{
-    asx
-=
-true;
-lengthOf =
-'0'  i8i8= '0'  crc =
-""abc""
-    /// triple
-    ; Packet
-// " ++ [128512]%N ++ runes_of_ascii " emoji
-// trailing space 
-= ' ' } // a // b")).
-Eval vm_compute in ("<<<M134>>>" ++ check (runes_of_ascii "
-")).
-Eval vm_compute in ("<<<M144>>>" ++ check (runes_of_ascii "options
-{ MetaDataX=""\n""
-    /// triple
-    stringy = 4294967296 ; Packet=
-    false	; As = ""a\\"" /// triple
-; stringy = ' ';} options {
-}
-    MetaData roots {
-stringy MetaDataX
-    , }")).
-Eval vm_compute in ("<<<M154>>>" ++ check (runes_of_ascii "packet
-    zchar { @lengthOf(Header )f32 string_ `a\`
-    , } // packet A { u8 x, }")).
-Eval vm_compute in ("<<<M164>>>" ++ check (runes_of_ascii "root
-packet o { @leftPad (
-    '0'  )repeat uint16 o // `tick` ""quote"" 'q'
-,// `tick` ""quote"" 'q'
-@tag( 1
-    // `tick` ""quote"" 'q'
-    )
-//x
-// " ++ [128512]%N ++ runes_of_ascii " emoji
-@tag( 65535 ) u32 options1 ,@lengthOf( i8i8) @lengthOf(int ) @leftPad// " ++ [27880; 37322]%N ++ runes_of_ascii "
-() char[  42 ] len @calculatedFrom( ""packet"" ) ,
-    u32 Foo @calculatedFrom( ""a\\"") ,
-    } packet a1 {@lengthOf(
-    A /// triple
-)	Foo MetaDataX `it's`, Z9_ metadata
-    //
-    `" ++ [28040; 24687; 31867; 22411]%N ++ runes_of_ascii "` ,
-match MetaDataX
-    as falsey { [ 42
-    ]
-    :body // " ++ [128512]%N ++ runes_of_ascii " emoji
-[""packet""	, 4294967296]
-    :  A} , Z9_ ,}")).
-Eval vm_compute in ("<<<M174>>>" ++ check (runes_of_ascii "options { roots
-=//x
-int64 }
-// @lengthOf(
-// @lengthOf(
-packet
-    int {
-char  zchar, repeat len {
-    f32a `" ++ [28040; 24687; 31867; 22411]%N ++ runes_of_ascii "`, } ,zchar[
-007 ]As
-    `it's`
-,  zchar[007
-    // a // b
-    ] uint8x @lengthOf(
-    //x
-    Foo)
-    ,
-// packet A { u8 x, }
-// packet A { u8 x, }
-}
-")).
-Eval vm_compute in ("<<<T174>>>" ++ terms [mkTok 1 "options" 1 0 false; mkTok 2 "{" 1 8 false; mkTok 42 "roots" 1 10 false; mkTok 4 "=" 2 0 false; mkTok 44 "//x" 2 1 true; mkTok 27 "int64" 3 0 false; mkTok 3 "}" 3 6 false; mkTok 44 "// @lengthOf(" 4 0 true; mkTok 44 "// @lengthOf(" 5 0 true; mkTok 35 "packet" 6 0 false; mkTok 42 "int" 7 4 false; mkTok 2 "{" 7 8 false; mkTok 19 "char" 8 0 false; mkTok 42 "zchar" 8 6 false; mkTok 40 "," 8 11 false; mkTok 36 "repeat" 8 13 false; mkTok 42 "len" 8 20 false; mkTok 2 "{" 8 24 false; mkTok 42 "f32a" 9 4 false; mkTok 43 (string_of_bytes [96; 230; 182; 136; 230; 129; 175; 231; 177; 187; 229; 158; 139; 96]%N) 9 9 false; mkTok 40 "," 9 15 false; mkTok 3 "}" 9 17 false; mkTok 40 "," 9 19 false; mkTok 14 "zchar[" 9 20 false; mkTok 30 "007" 10 0 false; mkTok 13 "]" 10 4 false; mkTok 42 "As" 10 5 false; mkTok 43 "`it's`" 11 4 false; mkTok 40 "," 12 0 false; mkTok 14 "zchar[" 12 3 false; mkTok 30 "007" 12 9 false; mkTok 44 "// a // b" 13 4 true; mkTok 13 "]" 14 4 false; mkTok 42 "uint8x" 14 6 false; mkTok 7 "@lengthOf(" 14 13 false; mkTok 44 "//x" 15 4 true; mkTok 42 "Foo" 16 4 false; mkTok 6 ")" 16 7 false; mkTok 40 "," 17 4 false; mkTok 44 "// packet A { u8 x, }" 18 0 true; mkTok 44 "// packet A { u8 x, }" 19 0 true; mkTok 3 "}" 20 0 false; mkTok 0 "<EOF>" 21 0 false] (mkPacket (mkPtok 1 "options" 1 0 0) (Some (mkPtok 3 "}" 20 0 41)) [(DOption (mkOptionDef (mkSpan (mkPtok 1 "options" 1 0 0) (mkPtok 3 "}" 3 6 6)) (mkPtok 1 "options" 1 0 0) (mkPtok 2 "{" 1 8 1) [(mkOptionDecl (mkSpan (mkPtok 42 "roots" 1 10 2) (mkPtok 27 "int64" 3 0 5)) (mkPtok 42 "roots" 1 10 2) (mkPtok 4 "=" 2 0 3) (VType (mkSpan (mkPtok 27 "int64" 3 0 5) (mkPtok 27 "int64" 3 0 5)) (TyBasic (mkSpan (mkPtok 27 "int64" 3 0 5) (mkPtok 27 "int64" 3 0 5)) (mkBasicType (mkSpan (mkPtok 27 "int64" 3 0 5) (mkPtok 27 "int64" 3 0 5)) (mkPtok 27 "int64" 3 0 5)))) None)] (mkPtok 3 "}" 3 6 6))); (DPacket (mkPacketDef (mkSpan (mkPtok 35 "packet" 6 0 9) (mkPtok 3 "}" 20 0 41)) None (mkPtok 35 "packet" 6 0 9) (mkPtok 42 "int" 7 4 10) (mkPtok 2 "{" 7 8 11) [(mkFieldWithAttr (mkSpan (mkPtok 19 "char" 8 0 12) (mkPtok 40 "," 8 11 14)) [] (MetaField (mkSpan (mkPtok 19 "char" 8 0 12) (mkPtok 40 "," 8 11 14)) None (mkMetaDecl (mkSpan (mkPtok 19 "char" 8 0 12) (mkPtok 40 "," 8 11 14)) (TyBasic (mkSpan (mkPtok 19 "char" 8 0 12) (mkPtok 19 "char" 8 0 12)) (mkBasicType (mkSpan (mkPtok 19 "char" 8 0 12) (mkPtok 19 "char" 8 0 12)) (mkPtok 19 "char" 8 0 12))) (mkPtok 42 "zchar" 8 6 13) None (mkPtok 40 "," 8 11 14)))); (mkFieldWithAttr (mkSpan (mkPtok 36 "repeat" 8 13 15) (mkPtok 40 "," 9 19 22)) [] (InerObjectField (mkSpan (mkPtok 36 "repeat" 8 13 15) (mkPtok 40 "," 9 19 22)) (Some (mkPtok 36 "repeat" 8 13 15)) (InerObjectDecl (mkSpan (mkPtok 42 "len" 8 20 16) (mkPtok 3 "}" 9 17 21)) (mkPtok 42 "len" 8 20 16) (mkPtok 2 "{" 8 24 17) [(ObjectField (mkSpan (mkPtok 42 "f32a" 9 4 18) (mkPtok 40 "," 9 15 20)) None (mkPtok 42 "f32a" 9 4 18) None (Some (mkPtok 43 (string_of_bytes [96; 230; 182; 136; 230; 129; 175; 231; 177; 187; 229; 158; 139; 96]%N) 9 9 19)) (mkPtok 40 "," 9 15 20))] (mkPtok 3 "}" 9 17 21)) (mkPtok 40 "," 9 19 22))); (mkFieldWithAttr (mkSpan (mkPtok 14 "zchar[" 9 20 23) (mkPtok 40 "," 12 0 28)) [] (MetaField (mkSpan (mkPtok 14 "zchar[" 9 20 23) (mkPtok 40 "," 12 0 28)) None (mkMetaDecl (mkSpan (mkPtok 14 "zchar[" 9 20 23) (mkPtok 40 "," 12 0 28)) (TyFixed (mkSpan (mkPtok 14 "zchar[" 9 20 23) (mkPtok 13 "]" 10 4 25)) (mkFixedString (mkSpan (mkPtok 14 "zchar[" 9 20 23) (mkPtok 13 "]" 10 4 25)) (mkPtok 14 "zchar[" 9 20 23) (mkPtok 30 "007" 10 0 24) (mkPtok 13 "]" 10 4 25))) (mkPtok 42 "As" 10 5 26) (Some (mkPtok 43 "`it's`" 11 4 27)) (mkPtok 40 "," 12 0 28)))); (mkFieldWithAttr (mkSpan (mkPtok 14 "zchar[" 12 3 29) (mkPtok 40 "," 17 4 38)) [] (LengthField (mkSpan (mkPtok 14 "zchar[" 12 3 29) (mkPtok 40 "," 17 4 38)) (mkLengthFieldDecl (mkSpan (mkPtok 14 "zchar[" 12 3 29) (mkPtok 40 "," 17 4 38)) (Some (TyFixed (mkSpan (mkPtok 14 "zchar[" 12 3 29) (mkPtok 13 "]" 14 4 32)) (mkFixedString (mkSpan (mkPtok 14 "zchar[" 12 3 29) (mkPtok 13 "]" 14 4 32)) (mkPtok 14 "zchar[" 12 3 29) (mkPtok 30 "007" 12 9 30) (mkPtok 13 "]" 14 4 32)))) (mkPtok 42 "uint8x" 14 6 33) (mkLengthOf (mkSpan (mkPtok 7 "@lengthOf(" 14 13 34) (mkPtok 6 ")" 16 7 37)) (mkPtok 7 "@lengthOf(" 14 13 34) (mkPtok 42 "Foo" 16 4 36) (mkPtok 6 ")" 16 7 37)) None (mkPtok 40 "," 17 4 38))))] (mkPtok 3 "}" 20 0 41)))])).
-Eval vm_compute in ("<<<M184>>>" ++ check (runes_of_ascii "root packet
-repeatCount{ } // trailing space ")).
-Eval vm_compute in ("<<<M194>>>" ++ check (runes_of_ascii "root packet u128 { char[  7 ]tag@calculatedFrom(
-""\" ++ [233]%N ++ runes_of_ascii """
-    ) // " ++ [128512]%N ++ runes_of_ascii " emoji
-`" ++ [233]%N ++ runes_of_ascii "`, @rightPad ( )
-    packetx , @lengthOf(  o
-    )	lengthOf
-@lengthOf( float )
-`// not a comment`,
-}
-")).
-Eval vm_compute in ("<<<M204>>>" ++ check (runes_of_ascii "packet	zchar { char[]  i64_,
-    // " ++ [128512]%N ++ runes_of_ascii " emoji
-    @calculatedFrom(	""// no comment"" ) match charz
-    as tag
-{ [""it's""
-, 4294967296
-    ,/// triple
-""a	b""
-    , """ ++ [28040; 24687]%N ++ runes_of_ascii """
-,""" ++ [128512]%N ++ runes_of_ascii """
-    ,  255 ,007 ] // packet A { u8 x, }
-: i64_
-, [	0123456789 ,3
-, 00 ]: // `tick` ""quote"" 'q'
-Packet , [ """ ++ [233]%N ++ runes_of_ascii "t" ++ [233]%N ++ runes_of_ascii """ ]
-:a1 ,	}
-,
-    }
-")).
-Eval vm_compute in ("<<<M214>>>" ++ check (runes_of_ascii "options{ }root // a // b
-packet
-    uint8x {  @tag( 3 ) @lengthOf(  falsey ) lengthOf @calculatedFrom(
-""`tick`"" ), A { i8 msg_type
-`crlf
-line` ,
-Foo @lengthOf( u8x
-) ,float ,
-    //
-    }
-, string // a // b
-lengthOf
-@calculatedFrom(	""abc"" )
-, @lengthOf(charz )
-    repeat string_	{// " ++ [128512]%N ++ runes_of_ascii " emoji
-zchar[
-    0
-    // a // b
-    ] T @calculatedFrom( ""a\\"" ) //	t
-, zchar[
-    42 ] repeatCount @lengthOf(
-Z9_ )`u8 x,`,}
-,  zchar[1
-    ]
-crc @calculatedFrom( // " ++ [27880; 37322]%N ++ runes_of_ascii "
-""// no comment"" )
-    `it's`
-    // `tick` ""quote"" 'q'
-    , @calculatedFrom(""{,}"")
-    tag
-int//
-, //x
-}
-MetaData f32a { // trailing space 
-i64 int // c
-,string int
-    , // c
-asx
-    //x
-    Pad
-    //x
-    `crlf
-line` , string lengthOf,
-    uint32
-pack ,// " ++ [27880; 37322]%N ++ runes_of_ascii "
-msg_type
-    u `it's` ,
-}")).
-Eval vm_compute in ("<<<M224>>>" ++ check (runes_of_ascii "
-packet uint8x	{	}")).
-Eval vm_compute in ("<<<M234>>>" ++ check (runes_of_ascii "
-MetaData options1 { zchar[
-    007 ] // `tick` ""quote"" 'q'
-zchar	`a\` , uint32 As ,
-    i8i8
-Foo ,
-// packet A { u8 x, }
-//x
-}
-    packet falsey { }")).
-Eval vm_compute in ("<<<M244>>>" ++ check (runes_of_ascii "// " ++ [128512]%N ++ runes_of_ascii " emoji
-options {repeatCount = u32 ;tag = ' ' ; } // a // b")).
-Eval vm_compute in ("<<<T244>>>" ++ terms [mkTok 44 (string_of_bytes [47; 47; 32; 240; 159; 152; 128; 32; 101; 109; 111; 106; 105]%N) 1 0 true; mkTok 1 "options" 2 0 false; mkTok 2 "{" 2 8 false; mkTok 42 "repeatCount" 2 9 false; mkTok 4 "=" 2 21 false; mkTok 22 "u32" 2 23 false; mkTok 41 ";" 2 27 false; mkTok 42 "tag" 2 28 false; mkTok 4 "=" 2 32 false; mkTok 33 "' '" 2 34 false; mkTok 41 ";" 2 38 false; mkTok 3 "}" 2 40 false; mkTok 44 "// a // b" 2 42 true; mkTok 0 "<EOF>" 2 51 false] (mkPacket (mkPtok 1 "options" 2 0 1) (Some (mkPtok 3 "}" 2 40 11)) [(DOption (mkOptionDef (mkSpan (mkPtok 1 "options" 2 0 1) (mkPtok 3 "}" 2 40 11)) (mkPtok 1 "options" 2 0 1) (mkPtok 2 "{" 2 8 2) [(mkOptionDecl (mkSpan (mkPtok 42 "repeatCount" 2 9 3) (mkPtok 41 ";" 2 27 6)) (mkPtok 42 "repeatCount" 2 9 3) (mkPtok 4 "=" 2 21 4) (VType (mkSpan (mkPtok 22 "u32" 2 23 5) (mkPtok 22 "u32" 2 23 5)) (TyBasic (mkSpan (mkPtok 22 "u32" 2 23 5) (mkPtok 22 "u32" 2 23 5)) (mkBasicType (mkSpan (mkPtok 22 "u32" 2 23 5) (mkPtok 22 "u32" 2 23 5)) (mkPtok 22 "u32" 2 23 5)))) (Some (mkPtok 41 ";" 2 27 6))); (mkOptionDecl (mkSpan (mkPtok 42 "tag" 2 28 7) (mkPtok 41 ";" 2 38 10)) (mkPtok 42 "tag" 2 28 7) (mkPtok 4 "=" 2 32 8) (VPaddingChar (mkSpan (mkPtok 33 "' '" 2 34 9) (mkPtok 33 "' '" 2 34 9)) (mkPtok 33 "' '" 2 34 9)) (Some (mkPtok 41 ";" 2 38 10)))] (mkPtok 3 "}" 2 40 11)))])).
-Eval vm_compute in ("<<<M254>>>" ++ check (runes_of_ascii "
-")).
-Eval vm_compute in ("<<<M264>>>" ++ check (runes_of_ascii "packet rootA {	}
-// `tick` ""quote"" 'q'
-/// triple
-options  {stringy
-    =
-0123456789
-;
-T =42 ;
-string_ = ""a\""b""
-    ; }
-//
-")).
-Eval vm_compute in ("<<<M274>>>" ++ check (runes_of_ascii "root
-packet i8i8 { @lengthOf(
-Packet)
-    u32 u8x, }")).
-Eval vm_compute in ("<<<M284>>>" ++ check (runes_of_ascii "// " ++ [27880; 37322]%N ++ runes_of_ascii "
-options
-    {
-zchar // a // b
-= ""x y""
-; options1 = u16
-;} packet
-Pad{ Z9_@calculatedFrom(
-"""")`
-` , @tag( 42
-    ) //
-@tag( 00 ) @lengthOf( zchar	) match _x// packet A { u8 x, }
-as metadata	{
-007: As ""`tick`""// packet A { u8 x, }
-: lengthOf,255 :lengthOf ""a	b""
-// trailing space 
-// " ++ [27880; 37322]%N ++ runes_of_ascii "
-:
-Packet 255: a1
-    , // c
-[ 00 ,
-    0 , 10 ,	""a\\"" , ""it's"" ,
-10, 7	]
-: Foo , }
-    , match Header
-as  o{
-[// packet A { u8 x, }
-255 ]
-    : zchar ,0123456789 :leftPad
-    [	007	, 3 ] : leftPad , // c
-0: packetx
-, } , } MetaData
-    Pad { // packet A { u8 x, }
-} packet T
-    // packet A { u8 x, }
-    {
-    // " ++ [27880; 37322]%N ++ runes_of_ascii "
-    charz
-    @lengthOf(asx) `` , }
-packet
-matchKey
-{  @tag( 3
-) @calculatedFrom( ""a	b""
-/// triple
-// c
+    ""a	b""
+    )body @calculatedFrom( ""`tick`"" ) , // trailing space 
+@lengthOf( matchKey ) match i8i8
+as msg_type  { 00: float
+, ""{,}"" :T	} ,@rightPad
+    ( '\x00') f64 trueish,  @lengthOf(
+chars )repeat string	A ,match Z9_ // trailing space 
+as /// triple
+metadata {	[ 42
+    , ""packet""]	: charz
+7 : body// 50% %s
+7 :	Z9_ , } ,	zchar[ 00 ]  float
+`
+` , @lengthOf(
+    leftPad
+    // c
+    ) repeat x_y_z
+    metadata ,// 50% %s
+@calculatedFrom( ""a\\"")
+@calculatedFrom(
+    """ ++ [28040; 24687]%N ++ runes_of_ascii """ )match MetaDataX as Pad { ""// no comment"": pack , }, @tag(007
 )
-@calculatedFrom("""" ) pack	rootA
-    ,  repeat //	t
-leftPad `` , repeat uint32 Foo `u8 x,` , @calculatedFrom(
-""" ++ [233]%N ++ runes_of_ascii "t" ++ [233]%N ++ runes_of_ascii """) repeat char[ 65535 ] u , @lengthOf( _x )@lengthOf( u8x ) repeat zchar[ 0123456789 ] x
-, match i64_ // " ++ [27880; 37322]%N ++ runes_of_ascii "
-as falsey{ // trailing space 
-255 :
-f32a , ""{,}"" : x ,""\" ++ [233]%N ++ runes_of_ascii """	: matchKey
-,
-[	"""",
-    // trailing space 
-    ""{,}"" ,
-    10 , """ ++ [128512]%N ++ runes_of_ascii """
-// a // b
-// packet A { u8 x, }
-, ""a	b"", 0
-,
-""1"",65535
-]: len , ""\" ++ [233]%N ++ runes_of_ascii """ :
-    T
-, [ ""CRC32"" ,
+    /// triple
+    crc { // @lengthOf(
+Z9_ {
+u128 { repeat repeatCount trueish ,As `crlf
+line` ,repeat
+    char[ 0123456789
     // " ++ [128512]%N ++ runes_of_ascii " emoji
-    1 , ""// no comment""
-, 007,1 ,	""`tick`"", """ ++ [128512]%N ++ runes_of_ascii """
-]// packet A { u8 x, }
-: a1  },match
-x as
-As
-{
-    ""a	b"":	o , 007
-:MetaDataX  ,  [
-""a	b""
-]:
-falsey , ""// no comment""
-    : Z9_""packet"":
-    _x
-    // " ++ [128512]%N ++ runes_of_ascii " emoji
-    , },repeat rootA {	uint8 MetaDataX
-    @calculatedFrom(
-    ""abc""
-    ) ,
-    match // `tick` ""quote"" 'q'
-int as// a // b
-asx {	[10	,
-10 , ""`tick`""  , 00 , 4294967296 ]
-    :
-    o ,
-    ""CRC32"" :
-string_ , [ 0
-]
-:	roots 65535 :
-// " ++ [27880; 37322]%N ++ runes_of_ascii "
-// trailing space 
-_x //
-, ""it's"" : Pad, 4294967296 : Pad , }
-,	u16	chars
-`line1
-line2`
-, //x
-}
-    ,
+    ]uint8x ,
+string
+repeatCount,
+    } , repeat int16 i64_ , repeat
+f32a Packet ``
+,
+    }, }	,
+    }
+")).
+Eval vm_compute in ("<<<M24>>>" ++ check (runes_of_ascii "packet // " ++ [27880; 37322]%N ++ runes_of_ascii "
+BodyLength { f64	body@lengthOf( o ), }
+")).
+Eval vm_compute in ("<<<M34>>>" ++ check (runes_of_ascii "options
+    //	t
+    { //x
 }")).
-Eval vm_compute in ("<<<M294>>>" ++ check (runes_of_ascii "
-options
-{charz =""x y"" calculatedFrom =	'0'	} packet msg_type {msg_type asx, string// packet A { u8 x, }
-packetx ,MetaDataX,
-Header { i64 packetx`tab	here`
-,  }, } options { // @lengthOf(
-uint8x = 0 x_y_z =	""x y""
-// packet A { u8 x, }
+Eval vm_compute in ("<<<T34>>>" ++ terms [mkTok 1 "options" 1 0 false; mkTok 44 (string_of_bytes [47; 47; 9; 116]%N) 2 4 true; mkTok 2 "{" 3 4 false; mkTok 44 "//x" 3 6 true; mkTok 3 "}" 4 0 false; mkTok 0 "<EOF>" 4 1 false] (mkPacket (mkPtok 1 "options" 1 0 0) (Some (mkPtok 3 "}" 4 0 4)) [(DOption (mkOptionDef (mkSpan (mkPtok 1 "options" 1 0 0) (mkPtok 3 "}" 4 0 4)) (mkPtok 1 "options" 1 0 0) (mkPtok 2 "{" 3 4 2) [] (mkPtok 3 "}" 4 0 4)))])).
+Eval vm_compute in ("<<<M44>>>" ++ check (runes_of_ascii "//x
+options{
+x= ""1"" x= ""x y""
+    //
+    ; calculatedFrom= ""a	b"" calculatedFrom = zchar[
+// c
+// c
+00 ] ;// `tick` ""quote"" 'q'
+_x =false ;
+    } packet Logon // 50% %s
+{
+    } packet
+x_y_z { match
+    f32a as repeatCount { 10// 50% %s
+: zchar , } ,char[] options1`u8 x,`
+    ,} packet options1
+{@calculatedFrom( ""it's""  )@calculatedFrom(""packet"") // " ++ [128512]%N ++ runes_of_ascii " emoji
+repeat string repeatCount ``
+,char[] msg_type ,
+i16 Z9_ @calculatedFrom( ""\n"" // 50% %s
+)	, @leftPad (' ') repeat
+BodyLength calculatedFrom
+,
+char[
+    4294967296
+    ] u128 , u128 repeatCount`
+`, @lengthOf(rootA )int64 Pad
+    @calculatedFrom( ""x y""
+// " ++ [128512]%N ++ runes_of_ascii " emoji
+// 50% %s
+), @lengthOf(
+int)repeat As ,stringy
+`u8 x,` ,
+    @leftPad( '0' )uint32 // @lengthOf(
+A
+,
+}root packet string_ // " ++ [27880; 37322]%N ++ runes_of_ascii "
+{ }")).
+Eval vm_compute in ("<<<M54>>>" ++ check (runes_of_ascii "options { /// triple
+BodyLength =
+// a // b
+// c
+""`tick`"" ;  }
+packet Header
+{// c
+u8x { T
+    {i64_ ,
+} ,match tag as//
+u128 // a // b
+{
+00	: crc ,""\n""	:metadata 255 :
+    trueish [ 0 ]
+    : msg_type , [
+""a\\""] :u
+, } , f32
+i64_`" ++ [233]%N ++ runes_of_ascii "`	, repeat u
+,}
+,
+u16
+T ,
+f64 BodyLength , } 	 ")).
+Eval vm_compute in ("<<<M64>>>" ++ check (runes_of_ascii "root packet
+f32a {
+    // a // b
+    }")).
+Eval vm_compute in ("<<<M74>>>" ++ check (runes_of_ascii "packet	x_y_z
+{ @tag( 00 // @lengthOf(
+) i16 packetx
+,string stringy @lengthOf( u
+    ) , repeat packetx
+,	@rightPad
+    (
+'\x00' ) @tag(
+007 ) uint64 f32a
+@lengthOf( asx
+) ,
+    msg_type@calculatedFrom(
+    ""a\""b"" ), string_
+    @lengthOf( packetx	), char[]calculatedFrom, @lengthOf( msg_type)  @calculatedFrom( """" )
+    @rightPad
+( '0' ) rootA , @leftPad(
+' ' )  match
+_x  as
+    string_{ 00 :
+chars ,
+    } ,
+u32 Z9_ `" ++ [233]%N ++ runes_of_ascii "` , }MetaData i64_
+//
+//x
+{u8x//	t
+Logon
+    , char	Z9_
+, char[] Packet`u8 x,` , char[ 10
+    ] // a // b
+options1
+    , }")).
+Eval vm_compute in ("<<<M84>>>" ++ check (runes_of_ascii "
+packet tag  {}")).
+Eval vm_compute in ("<<<M94>>>" ++ check (runes_of_ascii "
+packet Header{ @lengthOf( options1 )
+@lengthOf( matchKey ) @tag( 10 )i8
+options1 @lengthOf( //	t
+Foo ) `tab	here` ,
+// " ++ [128512]%N ++ runes_of_ascii " emoji
 //	t
-; }")).
+@lengthOf( Pad // " ++ [128512]%N ++ runes_of_ascii " emoji
+) match
+Pad	as u8x { 4294967296 :	i8i8 // `tick` ""quote"" 'q'
+,} ,} packet roots { // " ++ [128512]%N ++ runes_of_ascii " emoji
+packetx @lengthOf(msg_type )
+    , char[0123456789
+// trailing space 
+// @lengthOf(
+] calculatedFrom,i8 Logon , @tag(10 ) @tag( 00 ) zchar[ 65535]
+float  @lengthOf( int )
+, stringy@calculatedFrom(
+// " ++ [128512]%N ++ runes_of_ascii " emoji
+// 50% %s
+""" ++ [233]%N ++ runes_of_ascii "t" ++ [233]%N ++ runes_of_ascii """ /// triple
+)	,
+repeat roots u128 , @calculatedFrom(
+""{,}""
+)chars
+    {
+match roots
+    as	Foo
+{ 10
+:
+trueish,}
+,
+}
+    , // @lengthOf(
+i8i8 , @calculatedFrom(
+    ""x y"")	@calculatedFrom( ""a\""b"")repeat Z9_
+{
+    f32a msg_type
+    , repeat o	{ zchar[ 0
+    // `tick` ""quote"" 'q'
+    ] charz @calculatedFrom( /// triple
+""CRC32"" ) , } , } ,	}root // " ++ [27880; 37322]%N ++ runes_of_ascii "
+packet BodyLength  {calculatedFrom {
+char[] x @calculatedFrom( ""\n""
+)
+    , _x @calculatedFrom(
+""`tick`"" ), repeat u128 ,
+    float	Packet `
+` ,
+    } ,	repeat
+Foo {
+    uint64 a1 ,	}
+    , repeat char[ 42 ]
+matchKey
+`line1
+line2` ,  match /// triple
+rootA as lengthOf { // `tick` ""quote"" 'q'
+""it's"" :
+    u128 , //x
+1 :
+    uint8x
+    ""it's"": charz } ,
+repeat int16  zchar , repeat char[] BodyLength , @leftPad
+// " ++ [27880; 37322]%N ++ runes_of_ascii "
+// 50% %s
+( )
+    @calculatedFrom( ""it's""
+    ) @rightPad
+    (  ' '
+)char[
+// " ++ [128512]%N ++ runes_of_ascii " emoji
+// a // b
+007 ] Logon @lengthOf(
+BodyLength ) , @tag(42
+)
+zchar[00 ] T @calculatedFrom(
+""" ++ [233]%N ++ runes_of_ascii "t" ++ [233]%N ++ runes_of_ascii """
+    ) , u8x {//x
+float{	packetx
+    `a\` , A	{
+    uint8 charz
+`a\`
+, _x matchKey
+`" ++ [28040; 24687; 31867; 22411]%N ++ runes_of_ascii "`
+//	t
+// packet A { u8 x, }
+,
+match trueish // trailing space 
+as options1 { ""{,}"" : A , """" :Z9_
+/// triple
+// trailing space 
+""1""	: // `tick` ""quote"" 'q'
+f32a , 1 :msg_type , ""a\\"" :
+    Packet ,  [ """ ++ [128512]%N ++ runes_of_ascii """
+    ,""a\\"" ] :
+    chars, } ,
+match  len
+as
+    BodyLength { 65535:
+    int
+//x
+// a // b
+,
+""\n"" : f32a,	[""packet"" ,
+00 ,
+""CRC32""
+// @lengthOf(
+// `tick` ""quote"" 'q'
+,
+""`tick`""
+//x
+// 50% %s
+, 0 ,
+    ""a	b"" ,
+    // 50% %s
+    """"  ,""1"" ] // " ++ [128512]%N ++ runes_of_ascii " emoji
+:
+repeatCount
+""1"" // @lengthOf(
+:// " ++ [27880; 37322]%N ++ runes_of_ascii "
+leftPad,""CRC32""
+:
+lengthOf // @lengthOf(
+,	[7 ,	""a	b"" ] : //
+repeatCount
+    , }, } ,	char[]
+    falsey @calculatedFrom(""" ++ [233]%N ++ runes_of_ascii "t" ++ [233]%N ++ runes_of_ascii """) `" ++ [28040; 24687; 31867; 22411]%N ++ runes_of_ascii "`, zchar[007 ] lengthOf @lengthOf(
+x_y_z )`say ""hi""`, } //	t
+, } ,
+    MetaDataX ,
+}
+")).
+Eval vm_compute in ("<<<M104>>>" ++ check (runes_of_ascii "options // packet A { u8 x, }
+{
+}")).
+Eval vm_compute in ("<<<T104>>>" ++ terms [mkTok 1 "options" 1 0 false; mkTok 44 "// packet A { u8 x, }" 1 8 true; mkTok 2 "{" 2 0 false; mkTok 3 "}" 3 0 false; mkTok 0 "<EOF>" 3 1 false] (mkPacket (mkPtok 1 "options" 1 0 0) (Some (mkPtok 3 "}" 3 0 3)) [(DOption (mkOptionDef (mkSpan (mkPtok 1 "options" 1 0 0) (mkPtok 3 "}" 3 0 3)) (mkPtok 1 "options" 1 0 0) (mkPtok 2 "{" 2 0 2) [] (mkPtok 3 "}" 3 0 3)))])).
+Eval vm_compute in ("<<<M114>>>" ++ check (runes_of_ascii "// trailing space 
+root
+    packet	repeatCount
+{ @lengthOf(
+    _x
+) msg_type repeatCount
+    // a // b
+    ,repeat
+//	t
+// @lengthOf(
+uint16 u
+//
+/// triple
+,	zchar[65535 ] f32a `100% of %d` ,}
+/// triple
+// " ++ [27880; 37322]%N ++ runes_of_ascii "
+packet i64_ {
+@rightPad
+( )  BodyLength @calculatedFrom(
+    ""abc"" )
+`line1
+line2` ,
+}
+MetaData o {zchar[ 65535 ]// `tick` ""quote"" 'q'
+uint8x // 50% %s
+, zchar[1 ]
+i64_
+,
+    zchar[ 4294967296 ]As , }
+")).
+Eval vm_compute in ("<<<M124>>>" ++ check (runes_of_ascii "root packet
+A
+// packet A { u8 x, }
+// `tick` ""quote"" 'q'
+{
+    int64
+    //	t
+    Header@calculatedFrom(
+""packet"" ) , f32 o `it's` ,
+@calculatedFrom(// @lengthOf(
+"""" )zchar[
+0123456789 ] A @calculatedFrom(
+    ""\" ++ [233]%N ++ runes_of_ascii """ )
+    ,@calculatedFrom( ""abc""
+// a // b
+//	t
+) repeat
+    // `tick` ""quote"" 'q'
+    char[] a1,
+    repeat int trueish ,@rightPad
+(
+'\x00'
+) zchar[4294967296] _x , } root packet Z9_ {
+    } packet calculatedFrom { @lengthOf( int )repeat chars // trailing space 
+body, options1// " ++ [27880; 37322]%N ++ runes_of_ascii "
+@lengthOf(int) ,@lengthOf(a1 ) repeat char[
+    //x
+    1 ]  Pad `" ++ [28040; 24687; 31867; 22411]%N ++ runes_of_ascii "` , @calculatedFrom( """" )rootA u
+// " ++ [27880; 37322]%N ++ runes_of_ascii "
+//
+`doc`,
+int8 matchKey @calculatedFrom( ""CRC32""	) , @lengthOf( packetx ) @lengthOf(  msg_type ) u16 Foo	,	packetx crc `u8 x,`, zchar[ 255  ] A	,}")).
+Eval vm_compute in ("<<<M134>>>" ++ check (runes_of_ascii "// packet A { u8 x, }
+packet u128 {} options	{Z9_// a // b
+=u32
+}options { }	MetaData
+a1
+{char[  42 ] roots `" ++ [28040; 24687; 31867; 22411]%N ++ runes_of_ascii "` , }
+// " ++ [128512]%N ++ runes_of_ascii " emoji
+")).
+Eval vm_compute in ("<<<M144>>>" ++ check (runes_of_ascii "
+packet T {
+    f32a {
+a1 , }// @lengthOf(
+, zchar[ 7 ]stringy `100% of %d` // @lengthOf(
+, // `tick` ""quote"" 'q'
+}
+    options {  } packet A
+{
+    @rightPad
+( )
+    @lengthOf( lengthOf// `tick` ""quote"" 'q'
+)	@tag( 1)T
+@calculatedFrom(
+    ""a\""b"" )
+`` , Header , @tag(
+// `tick` ""quote"" 'q'
+// trailing space 
+4294967296
+) options1
+    {char[] A//
+`{ , }` , match Z9_ // packet A { u8 x, }
+as rootA {
+[3, """ ++ [233]%N ++ runes_of_ascii "t" ++ [233]%N ++ runes_of_ascii """]
+    // packet A { u8 x, }
+    :Logon
+,}, options1
+Header`" ++ [233]%N ++ runes_of_ascii "`, repeat
+f64 /// triple
+MetaDataX `it's`
+,
+    },
+    // trailing space 
+    float64 BodyLength, }")).
+Eval vm_compute in ("<<<M154>>>" ++ check (runes_of_ascii "
+root  packet	uint8x { // trailing space 
+@lengthOf(	a1 )uint64 i8i8
+@calculatedFrom(""it's"" ) , repeat float32 a1 ,@tag(
+1 ) @tag( 65535 )u32 options1, @lengthOf( i8i8
+) @lengthOf( int ) @leftPad ( ) char[42 ]len  @calculatedFrom( ""packet"")	, }
+root packet
+    u128 {}
+")).
+Eval vm_compute in ("<<<M164>>>" ++ check (runes_of_ascii "root packet
+a1 {
+@calculatedFrom( """") int8 u128 , match
+    i64_  as leftPad {
+007 : tag ,[ 0123456789 ] : // 50% %s
+string_	,
+""" ++ [233]%N ++ runes_of_ascii "t" ++ [233]%N ++ runes_of_ascii """  :trueish , [ 255 ,  ""a	b"" ] :
+trueish , }
+, zchar[ 255
+    ]o ,
+    @tag( 65535
+    ) @rightPad (' ' ) @tag( 7 )i8 pack
+    @calculatedFrom( ""\n"" )
+    //	t
+    , repeat char[]
+    charz `say ""hi""`  ,	}	options{ Header = int16 } options{ rootA= """ ++ [128512]%N ++ runes_of_ascii """ body= ""// no comment"" ;
+}
+
+")).
+Eval vm_compute in ("<<<M174>>>" ++ check (runes_of_ascii "packet
+    // `tick` ""quote"" 'q'
+    asx {
+    zchar[
+007] Pad
+`100% of %d` //x
+,
+}
+root packet u128 { char[ 65535] crc , }")).
+Eval vm_compute in ("<<<T174>>>" ++ terms [mkTok 35 "packet" 1 0 false; mkTok 44 "// `tick` ""quote"" 'q'" 2 4 true; mkTok 42 "asx" 3 4 false; mkTok 2 "{" 3 8 false; mkTok 14 "zchar[" 4 4 false; mkTok 30 "007" 5 0 false; mkTok 13 "]" 5 3 false; mkTok 42 "Pad" 5 5 false; mkTok 43 "`100% of %d`" 6 0 false; mkTok 44 "//x" 6 13 true; mkTok 40 "," 7 0 false; mkTok 3 "}" 8 0 false; mkTok 34 "root" 9 0 false; mkTok 35 "packet" 9 5 false; mkTok 42 "u128" 9 12 false; mkTok 2 "{" 9 17 false; mkTok 12 "char[" 9 19 false; mkTok 30 "65535" 9 25 false; mkTok 13 "]" 9 30 false; mkTok 42 "crc" 9 32 false; mkTok 40 "," 9 36 false; mkTok 3 "}" 9 38 false; mkTok 0 "<EOF>" 9 39 false] (mkPacket (mkPtok 35 "packet" 1 0 0) (Some (mkPtok 3 "}" 9 38 21)) [(DPacket (mkPacketDef (mkSpan (mkPtok 35 "packet" 1 0 0) (mkPtok 3 "}" 8 0 11)) None (mkPtok 35 "packet" 1 0 0) (mkPtok 42 "asx" 3 4 2) (mkPtok 2 "{" 3 8 3) [(mkFieldWithAttr (mkSpan (mkPtok 14 "zchar[" 4 4 4) (mkPtok 40 "," 7 0 10)) [] (MetaField (mkSpan (mkPtok 14 "zchar[" 4 4 4) (mkPtok 40 "," 7 0 10)) None (mkMetaDecl (mkSpan (mkPtok 14 "zchar[" 4 4 4) (mkPtok 40 "," 7 0 10)) (TyFixed (mkSpan (mkPtok 14 "zchar[" 4 4 4) (mkPtok 13 "]" 5 3 6)) (mkFixedString (mkSpan (mkPtok 14 "zchar[" 4 4 4) (mkPtok 13 "]" 5 3 6)) (mkPtok 14 "zchar[" 4 4 4) (mkPtok 30 "007" 5 0 5) (mkPtok 13 "]" 5 3 6))) (mkPtok 42 "Pad" 5 5 7) (Some (mkPtok 43 "`100% of %d`" 6 0 8)) (mkPtok 40 "," 7 0 10))))] (mkPtok 3 "}" 8 0 11))); (DPacket (mkPacketDef (mkSpan (mkPtok 34 "root" 9 0 12) (mkPtok 3 "}" 9 38 21)) (Some (mkPtok 34 "root" 9 0 12)) (mkPtok 35 "packet" 9 5 13) (mkPtok 42 "u128" 9 12 14) (mkPtok 2 "{" 9 17 15) [(mkFieldWithAttr (mkSpan (mkPtok 12 "char[" 9 19 16) (mkPtok 40 "," 9 36 20)) [] (MetaField (mkSpan (mkPtok 12 "char[" 9 19 16) (mkPtok 40 "," 9 36 20)) None (mkMetaDecl (mkSpan (mkPtok 12 "char[" 9 19 16) (mkPtok 40 "," 9 36 20)) (TyFixed (mkSpan (mkPtok 12 "char[" 9 19 16) (mkPtok 13 "]" 9 30 18)) (mkFixedString (mkSpan (mkPtok 12 "char[" 9 19 16) (mkPtok 13 "]" 9 30 18)) (mkPtok 12 "char[" 9 19 16) (mkPtok 30 "65535" 9 25 17) (mkPtok 13 "]" 9 30 18))) (mkPtok 42 "crc" 9 32 19) None (mkPtok 40 "," 9 36 20))))] (mkPtok 3 "}" 9 38 21)))])).
+Eval vm_compute in ("<<<M184>>>" ++ check (runes_of_ascii "packet Pad {	repeat uint8x { char[]
+Z9_, }
+    , repeat zchar[	10
+    ] i8i8,
+    x, repeat
+    string_
+    { // @lengthOf(
+repeat asx Foo ,int16	i8i8 ,  char[]matchKey, match
+calculatedFrom
+as roots { 3//
+:x_y_z , }
+, } , @lengthOf( x // packet A { u8 x, }
+)
+repeat // trailing space 
+o`a\` , char[] /// triple
+string_
+    `{ , }` ,} options{ f32a
+=false A= false } packet u128{
+@calculatedFrom( """ ++ [128512]%N ++ runes_of_ascii """ ) string a1,@tag( 00 )
+char[
+10
+]  A
+`" ++ [233]%N ++ runes_of_ascii "`,char[65535 ] len , @tag(	00 ) @rightPad ( '\x00' )@calculatedFrom( ""1"" )
+zchar[ 7
+] // trailing space 
+body ,
+    @calculatedFrom( ""{,}"") i64_ { repeat
+    // a // b
+    uint8x tag	`u8 x,` ,
+}, string_ A  , @calculatedFrom( ""x y"" )  @tag( 42 )
+i16 pack // a // b
+,	@rightPad (
+)A{ Z9_
+,  }
+// packet A { u8 x, }
+// @lengthOf(
+,
+tag
+BodyLength ,
+    }")).
+Eval vm_compute in ("<<<M194>>>" ++ check (runes_of_ascii "MetaData
+Logon	{ chars
+metadata `u8 x,` , uint64 x_y_z, u32
+    Z9_ ,
+    // 50% %s
+    uint64
+// packet A { u8 x, }
+// a // b
+pack
+, body asx
+,
+    }")).
+Eval vm_compute in ("<<<M204>>>" ++ check (runes_of_ascii "packet x
+    {
+    string msg_type ,match roots  as // @lengthOf(
+pack { ""\" ++ [233]%N ++ runes_of_ascii """: leftPad ,
+    //	t
+    0  : u8x 255 : options1
+,""x y""
+: i8i8// " ++ [27880; 37322]%N ++ runes_of_ascii "
+, ""x y"" : len ""`tick`"": metadata ,
+    }
+    ,}
+")).
+Eval vm_compute in ("<<<M214>>>" ++ check (runes_of_ascii "
+")).
+Eval vm_compute in ("<<<M224>>>" ++ check (runes_of_ascii "packet T { } MetaData MetaDataX {matchKey
+    trueish , }
+    options { tag
+=  false ;	zchar
+= i64; //
+lengthOf =
+    007;T = f32 Pad =
+//x
+// `tick` ""quote"" 'q'
+i32;}packet  uint8x { match
+o
+as
+    u128{
+""a\""b""
+: Pad ,}
+    , } options {
+    Logon // " ++ [128512]%N ++ runes_of_ascii " emoji
+= string ; } 	 ")).
+Eval vm_compute in ("<<<M234>>>" ++ check (runes_of_ascii "MetaData stringy
+{
+    char[]
+    u
+    ,	leftPad body, char[] matchKey , u32
+    Z9_	, crc body `" ++ [28040; 24687; 31867; 22411]%N ++ runes_of_ascii "`, uint8 packetx , } root //	t
+packet
+    pack// " ++ [128512]%N ++ runes_of_ascii " emoji
+{ @rightPad( ' ' ) float
+    int ,
+@calculatedFrom( """" )
+body
+    {
+match
+lengthOf
+    // a // b
+    as a1 { 255 // `tick` ""quote"" 'q'
+: trueish
+    ,""\" ++ [233]%N ++ runes_of_ascii """
+:
+// 50% %s
+// @lengthOf(
+trueish 1
+:rootA	}
+    ,	},
+}	options { }")).
+Eval vm_compute in ("<<<M244>>>" ++ check (runes_of_ascii "packet string_ { // c
+matchKey
+@calculatedFrom(  ""it's""
+)  , @tag( 65535
+)
+    char[  255
+]stringy , @leftPad (' ')	@rightPad
+(
+'0' )  u64 leftPad
+    @calculatedFrom( // trailing space 
+""abc"" )
+, @calculatedFrom( """ ++ [233]%N ++ runes_of_ascii "t" ++ [233]%N ++ runes_of_ascii """ ) repeat
+u
+    //	t
+    , match
+string_ as packetx {
+    ""packet"" : Pad , 1
+    : metadata
+    ,	""`tick`"" // `tick` ""quote"" 'q'
+:a1 // 50% %s
+""" ++ [128512]%N ++ runes_of_ascii """ :charz ,
+} , repeat zchar[
+    10]	_x
+,
+    }
+")).
+Eval vm_compute in ("<<<T244>>>" ++ terms [mkTok 35 "packet" 1 0 false; mkTok 42 "string_" 1 7 false; mkTok 2 "{" 1 15 false; mkTok 44 "// c" 1 17 true; mkTok 42 "matchKey" 2 0 false; mkTok 5 "@calculatedFrom(" 3 0 false; mkTok 31 """it's""" 3 18 false; mkTok 6 ")" 4 0 false; mkTok 40 "," 4 3 false; mkTok 9 "@tag(" 4 5 false; mkTok 30 "65535" 4 11 false; mkTok 6 ")" 5 0 false; mkTok 12 "char[" 6 4 false; mkTok 30 "255" 6 11 false; mkTok 13 "]" 7 0 false; mkTok 42 "stringy" 7 1 false; mkTok 40 "," 7 9 false; mkTok 32 "@leftPad" 7 11 false; mkTok 8 "(" 7 20 false; mkTok 33 "' '" 7 21 false; mkTok 6 ")" 7 24 false; mkTok 32 "@rightPad" 7 26 false; mkTok 8 "(" 8 0 false; mkTok 33 "'0'" 9 0 false; mkTok 6 ")" 9 4 false; mkTok 23 "u64" 9 7 false; mkTok 42 "leftPad" 9 11 false; mkTok 5 "@calculatedFrom(" 10 4 false; mkTok 44 "// trailing space " 10 21 true; mkTok 31 """abc""" 11 0 false; mkTok 6 ")" 11 6 false; mkTok 40 "," 12 0 false; mkTok 5 "@calculatedFrom(" 12 2 false; mkTok 31 (string_of_bytes [34; 195; 169; 116; 195; 169; 34]%N) 12 19 false; mkTok 6 ")" 12 25 false; mkTok 36 "repeat" 12 27 false; mkTok 42 "u" 13 0 false; mkTok 44 (string_of_bytes [47; 47; 9; 116]%N) 14 4 true; mkTok 40 "," 15 4 false; mkTok 38 "match" 15 6 false; mkTok 42 "string_" 16 0 false; mkTok 17 "as" 16 8 false; mkTok 42 "packetx" 16 11 false; mkTok 2 "{" 16 19 false; mkTok 31 """packet""" 17 4 false; mkTok 39 ":" 17 13 false; mkTok 42 "Pad" 17 15 false; mkTok 40 "," 17 19 false; mkTok 30 "1" 17 21 false; mkTok 39 ":" 18 4 false; mkTok 42 "metadata" 18 6 false; mkTok 40 "," 19 4 false; mkTok 31 """`tick`""" 19 6 false; mkTok 44 "// `tick` ""quote"" 'q'" 19 15 true; mkTok 39 ":" 20 0 false; mkTok 42 "a1" 20 1 false; mkTok 44 "// 50% %s" 20 4 true; mkTok 31 (string_of_bytes [34; 240; 159; 152; 128; 34]%N) 21 0 false; mkTok 39 ":" 21 4 false; mkTok 42 "charz" 21 5 false; mkTok 40 "," 21 11 false; mkTok 3 "}" 22 0 false; mkTok 40 "," 22 2 false; mkTok 36 "repeat" 22 4 false; mkTok 14 "zchar[" 22 11 false; mkTok 30 "10" 23 4 false; mkTok 13 "]" 23 6 false; mkTok 42 "_x" 23 8 false; mkTok 40 "," 24 0 false; mkTok 3 "}" 25 4 false; mkTok 0 "<EOF>" 26 0 false] (mkPacket (mkPtok 35 "packet" 1 0 0) (Some (mkPtok 3 "}" 25 4 69)) [(DPacket (mkPacketDef (mkSpan (mkPtok 35 "packet" 1 0 0) (mkPtok 3 "}" 25 4 69)) None (mkPtok 35 "packet" 1 0 0) (mkPtok 42 "string_" 1 7 1) (mkPtok 2 "{" 1 15 2) [(mkFieldWithAttr (mkSpan (mkPtok 42 "matchKey" 2 0 4) (mkPtok 40 "," 4 3 8)) [] (CheckSumField (mkSpan (mkPtok 42 "matchKey" 2 0 4) (mkPtok 40 "," 4 3 8)) (mkChecksumFieldDecl (mkSpan (mkPtok 42 "matchKey" 2 0 4) (mkPtok 40 "," 4 3 8)) None (mkPtok 42 "matchKey" 2 0 4) (mkCalculatedFrom (mkSpan (mkPtok 5 "@calculatedFrom(" 3 0 5) (mkPtok 6 ")" 4 0 7)) (mkPtok 5 "@calculatedFrom(" 3 0 5) (mkPtok 31 """it's""" 3 18 6) (mkPtok 6 ")" 4 0 7)) None (mkPtok 40 "," 4 3 8)))); (mkFieldWithAttr (mkSpan (mkPtok 9 "@tag(" 4 5 9) (mkPtok 40 "," 7 9 16)) [(FATag (mkSpan (mkPtok 9 "@tag(" 4 5 9) (mkPtok 6 ")" 5 0 11)) (mkTagAttr (mkSpan (mkPtok 9 "@tag(" 4 5 9) (mkPtok 6 ")" 5 0 11)) (mkPtok 9 "@tag(" 4 5 9) (mkPtok 30 "65535" 4 11 10) (mkPtok 6 ")" 5 0 11)))] (MetaField (mkSpan (mkPtok 12 "char[" 6 4 12) (mkPtok 40 "," 7 9 16)) None (mkMetaDecl (mkSpan (mkPtok 12 "char[" 6 4 12) (mkPtok 40 "," 7 9 16)) (TyFixed (mkSpan (mkPtok 12 "char[" 6 4 12) (mkPtok 13 "]" 7 0 14)) (mkFixedString (mkSpan (mkPtok 12 "char[" 6 4 12) (mkPtok 13 "]" 7 0 14)) (mkPtok 12 "char[" 6 4 12) (mkPtok 30 "255" 6 11 13) (mkPtok 13 "]" 7 0 14))) (mkPtok 42 "stringy" 7 1 15) None (mkPtok 40 "," 7 9 16)))); (mkFieldWithAttr (mkSpan (mkPtok 32 "@leftPad" 7 11 17) (mkPtok 40 "," 12 0 31)) [(FAPadding (mkSpan (mkPtok 32 "@leftPad" 7 11 17) (mkPtok 6 ")" 7 24 20)) (mkPaddingAttr (mkSpan (mkPtok 32 "@leftPad" 7 11 17) (mkPtok 6 ")" 7 24 20)) (mkPtok 32 "@leftPad" 7 11 17) (mkPtok 8 "(" 7 20 18) (Some (mkPtok 33 "' '" 7 21 19)) (mkPtok 6 ")" 7 24 20))); (FAPadding (mkSpan (mkPtok 32 "@rightPad" 7 26 21) (mkPtok 6 ")" 9 4 24)) (mkPaddingAttr (mkSpan (mkPtok 32 "@rightPad" 7 26 21) (mkPtok 6 ")" 9 4 24)) (mkPtok 32 "@rightPad" 7 26 21) (mkPtok 8 "(" 8 0 22) (Some (mkPtok 33 "'0'" 9 0 23)) (mkPtok 6 ")" 9 4 24)))] (CheckSumField (mkSpan (mkPtok 23 "u64" 9 7 25) (mkPtok 40 "," 12 0 31)) (mkChecksumFieldDecl (mkSpan (mkPtok 23 "u64" 9 7 25) (mkPtok 40 "," 12 0 31)) (Some (TyBasic (mkSpan (mkPtok 23 "u64" 9 7 25) (mkPtok 23 "u64" 9 7 25)) (mkBasicType (mkSpan (mkPtok 23 "u64" 9 7 25) (mkPtok 23 "u64" 9 7 25)) (mkPtok 23 "u64" 9 7 25)))) (mkPtok 42 "leftPad" 9 11 26) (mkCalculatedFrom (mkSpan (mkPtok 5 "@calculatedFrom(" 10 4 27) (mkPtok 6 ")" 11 6 30)) (mkPtok 5 "@calculatedFrom(" 10 4 27) (mkPtok 31 """abc""" 11 0 29) (mkPtok 6 ")" 11 6 30)) None (mkPtok 40 "," 12 0 31)))); (mkFieldWithAttr (mkSpan (mkPtok 5 "@calculatedFrom(" 12 2 32) (mkPtok 40 "," 15 4 38)) [(FACalculatedFrom (mkSpan (mkPtok 5 "@calculatedFrom(" 12 2 32) (mkPtok 6 ")" 12 25 34)) (mkCalculatedFrom (mkSpan (mkPtok 5 "@calculatedFrom(" 12 2 32) (mkPtok 6 ")" 12 25 34)) (mkPtok 5 "@calculatedFrom(" 12 2 32) (mkPtok 31 (string_of_bytes [34; 195; 169; 116; 195; 169; 34]%N) 12 19 33) (mkPtok 6 ")" 12 25 34)))] (ObjectField (mkSpan (mkPtok 36 "repeat" 12 27 35) (mkPtok 40 "," 15 4 38)) (Some (mkPtok 36 "repeat" 12 27 35)) (mkPtok 42 "u" 13 0 36) None None (mkPtok 40 "," 15 4 38))); (mkFieldWithAttr (mkSpan (mkPtok 38 "match" 15 6 39) (mkPtok 40 "," 22 2 62)) [] (MatchField (mkSpan (mkPtok 38 "match" 15 6 39) (mkPtok 40 "," 22 2 62)) (mkMatchFieldDecl (mkSpan (mkPtok 38 "match" 15 6 39) (mkPtok 3 "}" 22 0 61)) (mkPtok 38 "match" 15 6 39) (mkPtok 42 "string_" 16 0 40) (mkPtok 17 "as" 16 8 41) (mkPtok 42 "packetx" 16 11 42) (mkPtok 2 "{" 16 19 43) [(mkMatchPair (mkSpan (mkPtok 31 """packet""" 17 4 44) (mkPtok 40 "," 17 19 47)) (MKString (mkPtok 31 """packet""" 17 4 44)) (mkPtok 39 ":" 17 13 45) (mkPtok 42 "Pad" 17 15 46) (Some (mkPtok 40 "," 17 19 47))); (mkMatchPair (mkSpan (mkPtok 30 "1" 17 21 48) (mkPtok 40 "," 19 4 51)) (MKDigits (mkPtok 30 "1" 17 21 48)) (mkPtok 39 ":" 18 4 49) (mkPtok 42 "metadata" 18 6 50) (Some (mkPtok 40 "," 19 4 51))); (mkMatchPair (mkSpan (mkPtok 31 """`tick`""" 19 6 52) (mkPtok 42 "a1" 20 1 55)) (MKString (mkPtok 31 """`tick`""" 19 6 52)) (mkPtok 39 ":" 20 0 54) (mkPtok 42 "a1" 20 1 55) None); (mkMatchPair (mkSpan (mkPtok 31 (string_of_bytes [34; 240; 159; 152; 128; 34]%N) 21 0 57) (mkPtok 40 "," 21 11 60)) (MKString (mkPtok 31 (string_of_bytes [34; 240; 159; 152; 128; 34]%N) 21 0 57)) (mkPtok 39 ":" 21 4 58) (mkPtok 42 "charz" 21 5 59) (Some (mkPtok 40 "," 21 11 60)))] (mkPtok 3 "}" 22 0 61)) (mkPtok 40 "," 22 2 62))); (mkFieldWithAttr (mkSpan (mkPtok 36 "repeat" 22 4 63) (mkPtok 40 "," 24 0 68)) [] (MetaField (mkSpan (mkPtok 36 "repeat" 22 4 63) (mkPtok 40 "," 24 0 68)) (Some (mkPtok 36 "repeat" 22 4 63)) (mkMetaDecl (mkSpan (mkPtok 14 "zchar[" 22 11 64) (mkPtok 40 "," 24 0 68)) (TyFixed (mkSpan (mkPtok 14 "zchar[" 22 11 64) (mkPtok 13 "]" 23 6 66)) (mkFixedString (mkSpan (mkPtok 14 "zchar[" 22 11 64) (mkPtok 13 "]" 23 6 66)) (mkPtok 14 "zchar[" 22 11 64) (mkPtok 30 "10" 23 4 65) (mkPtok 13 "]" 23 6 66))) (mkPtok 42 "_x" 23 8 67) None (mkPtok 40 "," 24 0 68))))] (mkPtok 3 "}" 25 4 69)))])).
+Eval vm_compute in ("<<<M254>>>" ++ check (runes_of_ascii "packet i64_ {
+Logon{ u8
+// a // b
+// " ++ [27880; 37322]%N ++ runes_of_ascii "
+i8i8//	t
+@calculatedFrom(""" ++ [233]%N ++ runes_of_ascii "t" ++ [233]%N ++ runes_of_ascii """)
+    ,} //x
+, } packet lengthOf
+// c
+// c
+{ }
+")).
+Eval vm_compute in ("<<<M264>>>" ++ check (runes_of_ascii "
+MetaData i8i8 { char[]	Header
+    `// not a comment`  ,u8 roots `
+` , int64 T,	} options { }
+")).
+Eval vm_compute in ("<<<M274>>>" ++ check (runes_of_ascii "packet calculatedFrom
+    { // @lengthOf(
+repeat uint64 i8i8 // 50% %s
+, @lengthOf(matchKey
+)
+    float32 Logon
+    `crlf
+line` , @calculatedFrom( // trailing space 
+"""" )  char[ 42  ]
+uint8x , options1 // a // b
+{ char[]	chars @lengthOf( // " ++ [128512]%N ++ runes_of_ascii " emoji
+u
+    // `tick` ""quote"" 'q'
+    ) , match // " ++ [27880; 37322]%N ++ runes_of_ascii "
+zchar as pack
+    {
+    [
+    ""1""
+, """ ++ [233]%N ++ runes_of_ascii "t" ++ [233]%N ++ runes_of_ascii """ ]	: x
+, 3  : u  ,0// 50% %s
+: f32a , 007// c
+:A
+, 7 : // c
+As 3 :
+T  , } ,	} , }
+    options{ //	t
+BodyLength
+    =
+00
+// trailing space 
+// a // b
+} options
+    // c
+    {pack = ""x y"" body
+    = true; charz
+    = zchar[ 4294967296 ]
+;// " ++ [27880; 37322]%N ++ runes_of_ascii "
+metadata
+=
+    string
+    }
+MetaData a1 { uint64 Z9_ ,
+    asx Z9_
+`" ++ [233]%N ++ runes_of_ascii "`
+    //
+    , }packet packetx
+    {
+// packet A { u8 x, }
+/// triple
+@rightPad (
+    ) f64 int @lengthOf(// `tick` ""quote"" 'q'
+Pad ) , u32 BodyLength ,
+float64 trueish//x
+@lengthOf( lengthOf ) `tab	here` , }
+")).
+Eval vm_compute in ("<<<M284>>>" ++ check (runes_of_ascii "
+")).
+Eval vm_compute in ("<<<M294>>>" ++ check (runes_of_ascii "options//
+{ repeatCount  =
+0 ; msg_type =	float64 ;options1 =  ""`tick`""
+    // `tick` ""quote"" 'q'
+    ;// packet A { u8 x, }
+tag  =// c
+""\" ++ [233]%N ++ runes_of_ascii """ } options {
+// @lengthOf(
+// 50% %s
+calculatedFrom=true
+; Foo =	7
+crc =	""it's"" u =
+    false ;
+    }
+
+")).
 Eval vm_compute in ("<<<M304>>>" ++ check (runes_of_ascii "options {
     StringPrefixLenType = u16;
     ArrayPrefixLenType = u16;
@@ -671,98 +770,262 @@ packet Detail {
     string RuleName `" ++ [35268; 21017; 21517; 31216]%N ++ runes_of_ascii "`,
     u16 Code `" ++ [21407; 22240; 20195; 30721]%N ++ runes_of_ascii "`,
 }")).
-Eval vm_compute in ("<<<M314>>>" ++ check (runes_of_ascii "packet
-
-{ Z9_ Header// " ++ [128512]%N ++ runes_of_ascii " emoji
-,} packet pack
-    { }
+Eval vm_compute in ("<<<M314>>>" ++ check (runes_of_ascii "MetaData
+	{ char[] Z9_`{ , }`,} options { tag =
+    false } packet
+// a // b
+// @lengthOf(
+Pad {Foo @calculatedFrom( // `tick` ""quote"" 'q'
+""a\\"" ) ,
+    trueish ,
+    char[ 00]
+    // " ++ [128512]%N ++ runes_of_ascii " emoji
+    packetx , }
 ")).
-Eval vm_compute in ("<<<M324>>>" ++ check (runes_of_ascii "packet
-asx
-{  Header// " ++ [128512]%N ++ runes_of_ascii " emoji
-,} packet pack
-    { }
+Eval vm_compute in ("<<<M324>>>" ++ check (runes_of_ascii "MetaData
+crc	{  Z9_`{ , }`,} options { tag =
+    false } packet
+// a // b
+// @lengthOf(
+Pad {Foo @calculatedFrom( // `tick` ""quote"" 'q'
+""a\\"" ) ,
+    trueish ,
+    char[ 00]
+    // " ++ [128512]%N ++ runes_of_ascii " emoji
+    packetx , }
 ")).
-Eval vm_compute in ("<<<M334>>>" ++ check (runes_of_ascii "packet
-asx
-{ Z9_ Header// " ++ [128512]%N ++ runes_of_ascii " emoji
-} packet pack
-    { }
+Eval vm_compute in ("<<<M334>>>" ++ check (runes_of_ascii "MetaData
+crc	{ char[] Z9_,} options { tag =
+    false } packet
+// a // b
+// @lengthOf(
+Pad {Foo @calculatedFrom( // `tick` ""quote"" 'q'
+""a\\"" ) ,
+    trueish ,
+    char[ 00]
+    // " ++ [128512]%N ++ runes_of_ascii " emoji
+    packetx , }
 ")).
-Eval vm_compute in ("<<<M344>>>" ++ check (runes_of_ascii "packet
-asx
-{ Z9_ Header// " ++ [128512]%N ++ runes_of_ascii " emoji
-,}  pack
-    { }
+Eval vm_compute in ("<<<M344>>>" ++ check (runes_of_ascii "MetaData
+crc	{ char[] Z9_`{ , }`, options { tag =
+    false } packet
+// a // b
+// @lengthOf(
+Pad {Foo @calculatedFrom( // `tick` ""quote"" 'q'
+""a\\"" ) ,
+    trueish ,
+    char[ 00]
+    // " ++ [128512]%N ++ runes_of_ascii " emoji
+    packetx , }
 ")).
-Eval vm_compute in ("<<<M354>>>" ++ check (runes_of_ascii "packet
-asx
-{ Z9_ Header// " ++ [128512]%N ++ runes_of_ascii " emoji
-,} packet pack
-     }
+Eval vm_compute in ("<<<M354>>>" ++ check (runes_of_ascii "MetaData
+crc	{ char[] Z9_`{ , }`,} options  tag =
+    false } packet
+// a // b
+// @lengthOf(
+Pad {Foo @calculatedFrom( // `tick` ""quote"" 'q'
+""a\\"" ) ,
+    trueish ,
+    char[ 00]
+    // " ++ [128512]%N ++ runes_of_ascii " emoji
+    packetx , }
 ")).
-Eval vm_compute in ("<<<M364>>>" ++ check (runes_of_ascii "packet
-asx
-{ Z9_ Header// " ++ [128512]%N ++ runes_of_ascii " emoji
-,} p")).
-Eval vm_compute in ("<<<M374>>>" ++ check (runes_of_ascii "packet
-asx
-{ " ++ [127]%N ++ runes_of_ascii "Z9_ Header// " ++ [128512]%N ++ runes_of_ascii " emoji
-,} packet pack
-    { }
+Eval vm_compute in ("<<<M364>>>" ++ check (runes_of_ascii "MetaData
+crc	{ char[] Z9_`{ , }`,} options { tag 
+    false } packet
+// a // b
+// @lengthOf(
+Pad {Foo @calculatedFrom( // `tick` ""quote"" 'q'
+""a\\"" ) ,
+    trueish ,
+    char[ 00]
+    // " ++ [128512]%N ++ runes_of_ascii " emoji
+    packetx , }
 ")).
-Eval vm_compute in ("<<<M384>>>" ++ check (runes_of_ascii "packet
-asx
-{ Z9_ Header// " ++ [128512]%N ++ runes_of_ascii " emoji
-,} packet x" ++ [178]%N ++ runes_of_ascii "
-    { }
+Eval vm_compute in ("<<<M374>>>" ++ check (runes_of_ascii "MetaData
+crc	{ char[] Z9_`{ , }`,} options { tag =
+    false  packet
+// a // b
+// @lengthOf(
+Pad {Foo @calculatedFrom( // `tick` ""quote"" 'q'
+""a\\"" ) ,
+    trueish ,
+    char[ 00]
+    // " ++ [128512]%N ++ runes_of_ascii " emoji
+    packetx , }
 ")).
-Eval vm_compute in ("<<<M394>>>" ++ check (runes_of_ascii "MetaData")).
-Eval vm_compute in ("<<<M404>>>" ++ check (runes_of_ascii "MetaData o {")).
-Eval vm_compute in ("<<<M414>>>" ++ check (runes_of_ascii "MetaData o { char[ // `tick` ""quote"" 'q'
-3")).
-Eval vm_compute in ("<<<M424>>>" ++ check (runes_of_ascii "MetaData o { char[ // `tick` ""quote"" 'q'
-3] body")).
-Eval vm_compute in ("<<<M434>>>" ++ check (runes_of_ascii "MetaData o { char[ // `tick` ""quote"" 'q'
-3] body, }")).
-Eval vm_compute in ("<<<M444>>>" ++ check (runes_of_ascii "MetaData o { char[ // `tick` ""quote"" 'q'
-3] body, } packet o")).
-Eval vm_compute in ("<<<M454>>>" ++ check (runes_of_ascii "MetaData o { char[ // `tick` ""quote"" 'q'
-3] body, } packet o{
-u8")).
-Eval vm_compute in ("<<<M464>>>" ++ check (runes_of_ascii "MetaData o { char[ // `tick` """)).
-Eval vm_compute in ("<<<M474>>>" ++ check (runes_of_ascii "MetaData o { char[ // `tick` ""quote""" ++ [65279]%N ++ runes_of_ascii " 'q'
-3] body, } packet o{
-u8
-charz ,
-    }")).
-Eval vm_compute in ("<<<M484>>>" ++ check (runes_of_ascii "MetaData o { char[ // `tick` ""quote"" 'q'
-3] body, } packet o{
-u8
-" ++ [252]%N ++ runes_of_ascii "ber ,
-    }")).
-Eval vm_compute in ("<<<M494>>>" ++ check (runes_of_ascii "options char[calculatedFrom =	int8 ;}
-
+Eval vm_compute in ("<<<M384>>>" ++ check (runes_of_ascii "MetaData
+crc	{ char[] Z9_`{ , }`,} options { tag =
+    false } packet
+// a // b
+// @lengthOf(
+ {Foo @calculatedFrom( // `tick` ""quote"" 'q'
+""a\\"" ) ,
+    trueish ,
+    char[ 00]
+    // " ++ [128512]%N ++ runes_of_ascii " emoji
+    packetx , }
 ")).
-Eval vm_compute in ("<<<M504>>>" ++ check (runes_of_ascii "options {calculatedFrom ;	int8 ;}
-
+Eval vm_compute in ("<<<M394>>>" ++ check (runes_of_ascii "MetaData
+crc	{ char[] Z9_`{ , }`,} options { tag =
+    false } packet
+// a // b
+// @lengthOf(
+Pad { @calculatedFrom( // `tick` ""quote"" 'q'
+""a\\"" ) ,
+    trueish ,
+    char[ 00]
+    // " ++ [128512]%N ++ runes_of_ascii " emoji
+    packetx , }
 ")).
-Eval vm_compute in ("<<<M514>>>" ++ check (runes_of_ascii "options {calculatedFrom =	int8 @lengthOf(}
-
+Eval vm_compute in ("<<<M404>>>" ++ check (runes_of_ascii "MetaData
+crc	{ char[] Z9_`{ , }`,} options { tag =
+    false } packet
+// a // b
+// @lengthOf(
+Pad {Foo @calculatedFrom( // `tick` ""quote"" 'q'
+ ) ,
+    trueish ,
+    char[ 00]
+    // " ++ [128512]%N ++ runes_of_ascii " emoji
+    packetx , }
 ")).
-Eval vm_compute in ("<<<M524>>>" ++ check (runes_of_ascii "options {calculatedFrom =	int8 ;")).
-Eval vm_compute in ("<<<M534>>>" ++ check (runes_of_ascii "o?ptions {calculatedFrom =	int8 ;}
-
+Eval vm_compute in ("<<<M414>>>" ++ check (runes_of_ascii "MetaData
+crc	{ char[] Z9_`{ , }`,} options { tag =
+    false } packet
+// a // b
+// @lengthOf(
+Pad {Foo @calculatedFrom( // `tick` ""quote"" 'q'
+""a\\"" ) 
+    trueish ,
+    char[ 00]
+    // " ++ [128512]%N ++ runes_of_ascii " emoji
+    packetx , }
 ")).
-Eval vm_compute in ("<<<M544>>>" ++ check (runes_of_ascii "
-MetaData chars {Logon packetx,
-    float calculatedFrom
-uint8  u32 i64_ ,	}")).
-Eval vm_compute in ("<<<M554>>>" ++ check (runes_of_ascii "
-MetaData chars Logon{ packetx,
-    float calculatedFrom
-,  u32 i64_ ,	}")).
+Eval vm_compute in ("<<<M424>>>" ++ check (runes_of_ascii "MetaData
+crc	{ char[] Z9_`{ , }`,} options { tag =
+    false } packet
+// a // b
+// @lengthOf(
+Pad {Foo @calculatedFrom( // `tick` ""quote"" 'q'
+""a\\"" ) ,
+    trueish 
+    char[ 00]
+    // " ++ [128512]%N ++ runes_of_ascii " emoji
+    packetx , }
+")).
+Eval vm_compute in ("<<<M434>>>" ++ check (runes_of_ascii "MetaData
+crc	{ char[] Z9_`{ , }`,} options { tag =
+    false } packet
+// a // b
+// @lengthOf(
+Pad {Foo @calculatedFrom( // `tick` ""quote"" 'q'
+""a\\"" ) ,
+    trueish ,
+    char[ ]
+    // " ++ [128512]%N ++ runes_of_ascii " emoji
+    packetx , }
+")).
+Eval vm_compute in ("<<<M444>>>" ++ check (runes_of_ascii "MetaData
+crc	{ char[] Z9_`{ , }`,} options { tag =
+    false } packet
+// a // b
+// @lengthOf(
+Pad {Foo @calculatedFrom( // `tick` ""quote"" 'q'
+""a\\"" ) ,
+    trueish ,
+    char[ 00]
+    // " ++ [128512]%N ++ runes_of_ascii " emoji
+     , }
+")).
+Eval vm_compute in ("<<<M454>>>" ++ check (runes_of_ascii "MetaData
+crc	{ char[] Z9_`{ , }`,} options { tag =
+    false } packet
+// a // b
+// @lengthOf(
+Pad {Foo @calculatedFrom( // `tick` ""quote"" 'q'
+""a\\"" ) ,
+    trueish ,
+    char[ 00]
+    // " ++ [128512]%N ++ runes_of_ascii " emoji
+    packetx , 
+")).
+Eval vm_compute in ("<<<M464>>>" ++ check (runes_of_ascii "MetaData
+crc	{ char[] Z9_`{ , }`,} options { tag =
+ " ++ [0]%N ++ runes_of_ascii "   false } packet
+// a // b
+// @lengthOf(
+Pad {Foo @calculatedFrom( // `tick` ""quote"" 'q'
+""a\\"" ) ,
+    trueish ,
+    char[ 00]
+    // " ++ [128512]%N ++ runes_of_ascii " emoji
+    packetx , }
+")).
+Eval vm_compute in ("<<<M474>>>" ++ check (runes_of_ascii "MetaData
+crc	{ char[] Z9_`{ , }`,} options { tag =
+    false } packet
+// a // b
+// @lengthOf(
+Pad {Foo @calculatedFrom( // `tick` ""quote"" 'q'
+""a\\"" ) ,
+    trueish ,
+ %   char[ 00]
+    // " ++ [128512]%N ++ runes_of_ascii " emoji
+    packetx , }
+")).
+Eval vm_compute in ("<<<M484>>>" ++ check (runes_of_ascii "root packet _x	{ @rightPad (
+' ' ) string u8x @lengthOf(")).
+Eval vm_compute in ("<<<M494>>>" ++ check (runes_of_ascii "root packet _x	{ @rightPad (
+' ' ) string u8x @lengthOf(
+    _x
+) , repeat Pad  { // " ++ [128512]%N ++ runes_of_ascii " emoji
+As
+// `tick` ""quote"" 'q'
+//x
+{matchKey chars,
+} , }@lengthOf( }")).
+Eval vm_compute in ("<<<M504>>>" ++ check (runes_of_ascii "root packet _x	{ @rightPad (
+' ' ) string")).
+Eval vm_compute in ("<<<M514>>>" ++ check (runes_of_ascii "root packet _x	{ @rightPad (
+' ' ) u8x string @lengthOf(
+    _x
+) , repeat Pad  { // " ++ [128512]%N ++ runes_of_ascii " emoji
+As
+// `tick` ""quote"" 'q'
+//x
+{matchKey chars,
+} , }, }")).
+Eval vm_compute in ("<<<M524>>>" ++ check (runes_of_ascii "root packet _x	{ @rightPad (
+' ' ) string u8x @lengthOf(
+    _x
+) , repeat Pad  { // " ++ [128512]%N ++ runes_of_ascii " emoji
+As
+// `tick` ""quote"" 'q'
+//x
+{matchKey ,,
+} , }, }")).
+Eval vm_compute in ("<<<M534>>>" ++ check (runes_of_ascii "root packet _x	{ @rightPad (
+' ' ) string u8x @lengthOf(
+    _x
+) , repeat Pad  { // " ++ [128512]%N ++ runes_of_ascii " emoji
+As
+// `tick` ""quote"" 'q'
+//x
+{ chars,
+} , }, }")).
+Eval vm_compute in ("<<<M544>>>" ++ check (runes_of_ascii "root packet _x	{ @rightPad (
+' ' ) string u8x")).
+Eval vm_compute in ("<<<M554>>>" ++ check (runes_of_ascii "root packet _x	{ @rightPad (
+' ' ) string u8x @lengthOf(
+    _x
+) , repeat Pad  { // " ++ [128512]%N ++ runes_of_ascii " emoji
+As
+// `tick` ""quote"" 'q'
+//x
+{matchKey chars,
+} , }, } }")).
 Eval vm_compute in ("<<<M564>>>" ++ check (runes_of_ascii " ")).
 Eval vm_compute in ("<<<M574>>>" ++ check ([65279]%N)).
-Eval vm_compute in ("<<<M584>>>" ++ check (runes_of_ascii "f32 match i32 } uint8 ; MetaData , char[] ] ( `{ , }` @calculatedFrom( true")).
-Eval vm_compute in ("<<<M594>>>" ++ check (runes_of_ascii "9\qh,>>]4eOYQ=VK")).
+Eval vm_compute in ("<<<M584>>>" ++ check (runes_of_ascii "u32 : @lengthOf( '\x00' } char string @tag( char true false MetaData ""a	b"" `// not a comment`")).
+Eval vm_compute in ("<<<M594>>>" ++ check (runes_of_ascii ")w?!zV^]xyN'&nd8Gq!2G H,AUM]Rq]n;B]tk~")).
